@@ -1,1653 +1,8 @@
 /-
-  Helper lemmas for the source tie: the definitions of `RenetVerif/Generated/Src.lean` (regenerated from
-  the Rust text by /verif/translator on every check run) agree with the hand-written model.
-  Sections: step lemmas for the RustSem primitives; A replay protection; B netcode prefix byte;
-  C slice constructor; D `Packet::to_bytes`, E `Packet::from_bytes` over the octets model.  Headline statements are in `Props/SrcTie.lean`.
+  Helper lemmas for the source tie, all groups (kept as an umbrella module; the per-group modules are what
+  the property checks import).
 -/
-import RenetVerif.Generated.Src
-import RenetVerif.Netcode.Replay
-import RenetVerif.Netcode.Wire
-import RenetVerif.Renet.Channels
-import RenetVerif.Renet.Packet
-namespace RenetVerif.SrcEquiv
-open RenetVerif RenetVerif.RustSem
-
-/-! ## step lemmas for the primitives -/
-section prims
-variable {ε ρ α β σ : Type}
-theorem add_val {w a b : Nat} {s : String} (h : a + b < 2 ^ w) : (RustSem.add w a b s : Exec ε ρ Nat) = .val (a + b) := by
-  simp [RustSem.add, h]
-theorem add_panic {w a b : Nat} {s : String} (h : ¬ a + b < 2 ^ w) : (RustSem.add w a b s : Exec ε ρ Nat) = .panic s := by
-  simp [RustSem.add, h]
-theorem sub_val {w a b : Nat} {s : String} (h : b ≤ a) : (RustSem.sub w a b s : Exec ε ρ Nat) = .val (a - b) := by
-  simp [RustSem.sub, h]
-theorem sub_panic {w a b : Nat} {s : String} (h : ¬ b ≤ a) : (RustSem.sub w a b s : Exec ε ρ Nat) = .panic s := by
-  simp [RustSem.sub, h]
-theorem mul_val {w a b : Nat} {s : String} (h : a * b < 2 ^ w) : (RustSem.mul w a b s : Exec ε ρ Nat) = .val (a * b) := by
-  simp [RustSem.mul, h]
-theorem mul_panic {w a b : Nat} {s : String} (h : ¬ a * b < 2 ^ w) : (RustSem.mul w a b s : Exec ε ρ Nat) = .panic s := by
-  simp [RustSem.mul, h]
-theorem rem_val {w a b : Nat} {s : String} (h : b ≠ 0) : (RustSem.rem w a b s : Exec ε ρ Nat) = .val (a % b) := by
-  simp [RustSem.rem, h]
-theorem shr_val {w a n : Nat} {s : String} (h : n < w) : (RustSem.shr w a n s : Exec ε ρ Nat) = .val (a >>> n) := by
-  simp [RustSem.shr, h]
-theorem shl_val {w a n : Nat} {s : String} (h : n < w) : (RustSem.shl w a n s : Exec ε ρ Nat) = .val ((a <<< n) % 2 ^ w) := by
-  simp [RustSem.shl, h]
-theorem index_val {l : List α} {i : Nat} {x : α} {s : String} (h : l[i]? = some x) :
-    (RustSem.index l i s : Exec ε ρ α) = .val x := by
-  simp [RustSem.index, h]
-theorem index_panic {l : List α} {i : Nat} {s : String} (h : l[i]? = none) :
-    (RustSem.index l i s : Exec ε ρ α) = .panic s := by
-  simp [RustSem.index, h]
-theorem set_val {l : List α} {i : Nat} {x : α} {s : String} (h : i < l.length) :
-    (RustSem.set l i x s : Exec ε ρ (List α)) = .val (l.set i x) := by
-  simp [RustSem.set, h]
-theorem cast_of_lt {w x : Nat} (h : x < 2 ^ w) : RustSem.cast w x = x := Nat.mod_eq_of_lt h
-
-theorem Exec.bind_val' (a : α) (f : α → Exec ε ρ β) : (Exec.val a).bind f = f a := rfl
-theorem Exec.bind_ret' (r : ρ) (f : α → Exec ε ρ β) : (Exec.ret r : Exec ε ρ α).bind f = .ret r := rfl
-theorem Exec.bind_err' (e : ε) (f : α → Exec ε ρ β) : (Exec.err e : Exec ε ρ α).bind f = .err e := rfl
-theorem Exec.bind_panic' (s : String) (f : α → Exec ε ρ β) : (Exec.panic s : Exec ε ρ α).bind f = .panic s := rfl
-theorem Exec.bind_assoc' {γ : Type} (x : Exec ε ρ α) (f : α → Exec ε ρ β) (g : β → Exec ε ρ γ) :
-    (x.bind f).bind g = x.bind (fun a => (f a).bind g) := by cases x <;> rfl
-theorem Exec.ite_bind (c : Prop) [Decidable c] (a b : Exec ε ρ α) (f : α → Exec ε ρ β) :
-    (if c then a else b).bind f = if c then a.bind f else b.bind f := by split <;> rfl
-theorem Exec.ite_run (c : Prop) [Decidable c] (a b : Exec ε ρ ρ) :
-    (if c then a else b).run = if c then a.run else b.run := by split <;> rfl
-
-theorem forRange_succ {lo hi : Nat} (h : lo < hi) (init : σ) (body : Nat → σ → Exec ε ρ σ) :
-    RustSem.forRange lo hi init body = (body lo init).bind (fun st => RustSem.forRange (lo + 1) hi st body) := by
-  unfold RustSem.forRange
-  have : hi - lo = (hi - (lo + 1)) + 1 := by omega
-  rw [this, RustSem.forRange.loop]
-theorem forRange_done {lo hi : Nat} (h : hi ≤ lo) (init : σ) (body : Nat → σ → Exec ε ρ σ) :
-    RustSem.forRange lo hi init body = .val init := by
-  unfold RustSem.forRange
-  have : hi - lo = 0 := by omega
-  rw [this, RustSem.forRange.loop]
-
-/-- map the outcome of a generated function to the model's types (panic sites are kept) -/
-def mapRes {ε ε' α β : Type} (f : α → β) (g : ε → ε') : Res ε α → Res ε' β
-  | .ok a => .ok (f a)
-  | .err e => .err (g e)
-  | .panic s => .panic s
-
-/-- same outcome: equal `ok` values, equal `err` values, panic iff panic (the site text is not compared:
-    the model and the generated code name their panic sites differently) -/
-def SameOutcome {ε α : Type} : Res ε α → Res ε α → Prop
-  | .ok a, .ok b => a = b
-  | .err a, .err b => a = b
-  | .panic _, .panic _ => True
-  | _, _ => False
-end prims
-
-/-! ## A. replay protection -/
-section A
-open Netcode
-open Src.renetcode.replay_protection
-
-def reprRP (rp : RP) : ReplayProtection := ⟨rp.mostRecent, rp.received.toList⟩
-
-theorem reprRP_get (rp : RP) (s : Nat) : (reprRP rp).received_packet[s % 256]? = some (rp.at s) := by
-  simp [reprRP, RP.at]
-
-theorem rp_new_eq {ε} : (ReplayProtection.new : Res ε _) = .ok (reprRP RP.new) := by
-  unfold ReplayProtection.new
-  simp only [Exec.pure_eq, Exec.run_val]
-  rfl
-
-theorem already_received_eq {ε} (rp : RP) (s : Nat) (hs : s < 2 ^ 64) :
-    (ReplayProtection.already_received (reprRP rp) s : Res ε Bool) = .ok (rp.alreadyReceived s) := by
-  unfold ReplayProtection.already_received
-  simp only [NETCODE_REPLAY_BUFFER_SIZE, EMPTY, RustSem.MAX, cast_of_lt hs, cast_of_lt (show 256 < 2 ^ 64 by decide),
-    rem_val (show 256 ≠ 0 by decide), Exec.bind_val, index_val (reprRP_get rp s),
-    RP.alreadyReceived, RP.alreadyReceived.U64, Replay.EMPTY, RustSem.checked_add]
-  have hm : (reprRP rp).most_recent_sequence = rp.mostRecent := rfl
-  rw [hm]
-  generalize rp.at s = v
-  generalize rp.mostRecent = m
-  by_cases h1 : s + 256 < 2 ^ 64 <;> by_cases h2 : s + 256 ≤ m <;> by_cases h3 : v = 2 ^ 64 - 1 <;>
-    by_cases h4 : v ≥ s <;>
-    simp [h1, h2, h3, h4, Exec.bind_eq, Exec.bind, Exec.run, Exec.pure_eq] <;> omega
-
-theorem advance_sequence_eq {ε} (rp : RP) (s : Nat) (hs : s < 2 ^ 64) :
-    (ReplayProtection.advance_sequence (reprRP rp) s : Res ε _) = .ok (reprRP (rp.advance s), ()) := by
-  unfold ReplayProtection.advance_sequence
-  have hlen : s % 256 < rp.received.toList.length := by
-    simp; exact Nat.mod_lt _ (by decide)
-  simp only [NETCODE_REPLAY_BUFFER_SIZE, cast_of_lt hs, rem_val (show 256 ≠ 0 by decide), Exec.pure_eq, reprRP,
-    Exec.bind_val]
-  by_cases h : s > rp.mostRecent
-  · simp only [h, decide_true, if_true, Exec.bind_val, set_val hlen, Exec.run_val, RP.advance, Vector.toList_set]
-  · simp only [h, decide_false, Bool.false_eq_true, if_false, Exec.bind_val, set_val hlen, Exec.run_val, RP.advance, Vector.toList_set]
-
-/-- well-formed source state: the `[u64; 256]` array has its 256 entries -/
-def WfRP (st : ReplayProtection) : Prop := st.received_packet.length = 256
-instance (st : ReplayProtection) : Decidable (WfRP st) := by unfold WfRP; infer_instance
-
-/-- abstraction: generated `ReplayProtection` ↦ model `RP` -/
-def absRP (st : ReplayProtection) (h : WfRP st) : RP :=
-  ⟨st.most_recent_sequence, ⟨st.received_packet.toArray, by simpa [WfRP] using h⟩⟩
-
-theorem wf_reprRP (rp : RP) : WfRP (reprRP rp) := by simp [WfRP, reprRP]
-theorem reprRP_absRP (st : ReplayProtection) (h : WfRP st) : reprRP (absRP st h) = st := by
-  cases st; simp [reprRP, absRP]
-theorem absRP_reprRP (rp : RP) (h : WfRP (reprRP rp)) : absRP (reprRP rp) h = rp := by
-  obtain ⟨m, ⟨a, ha⟩⟩ := rp; simp [reprRP, absRP]
-end A
-
-/-! ## B. netcode prefix byte, packet type -/
-/-- `x & (0xFF << 8k)` is zero iff byte `k` of `x` is zero -/
-theorem and_byte_mask (x k : Nat) : x &&& (255 <<< (8 * k)) = 0 ↔ x / 256 ^ k % 256 = 0 := by
-  have e : x &&& (255 <<< (8 * k)) = ((x >>> (8 * k)) &&& 255) <<< (8 * k) := by
-    apply Nat.eq_of_testBit_eq
-    intro i
-    simp only [Nat.testBit_and, Nat.testBit_shiftLeft, Nat.testBit_shiftRight]
-    by_cases h : i ≥ 8 * k
-    · have : 8 * k + (i - 8 * k) = i := by omega
-      simp [h, this]
-    · simp [h]
-  rw [e, Nat.shiftLeft_eq, Nat.mul_eq_zero]
-  have h3 : (x >>> (8 * k)) &&& 255 = x / 256 ^ k % 256 := by
-    rw [show (255 : Nat) = 2 ^ 8 - 1 by decide, Nat.and_two_pow_sub_one_eq_mod, Nat.shiftRight_eq_div_pow, Nat.pow_mul]
-  rw [h3]
-  simp
-
-section B
-open Netcode
-open Src.renetcode.packet
-
-theorem sequence_bytes_required_eq {ε} (s : Nat) :
-    (sequence_bytes_required s : Res ε Nat) = .ok (Packet.sequenceBytesRequired s) := by
-  have m7 := and_byte_mask s 7
-  have m6 := and_byte_mask s 6
-  have m5 := and_byte_mask s 5
-  have m4 := and_byte_mask s 4
-  have m3 := and_byte_mask s 3
-  have m2 := and_byte_mask s 2
-  have m1 := and_byte_mask s 1
-  have m0 := and_byte_mask s 0
-  simp only [Nat.reduceMul, Nat.reduceShiftLeft] at m7 m6 m5 m4 m3 m2 m1 m0
-  unfold sequence_bytes_required
-  simp only [Packet.sequenceBytesRequired, Packet.sequenceBytesRequired.go]
-  simp only [forRange_succ (show 0 < 8 by decide), forRange_succ (show 1 < 8 by decide), forRange_succ (show 2 < 8 by decide),
-    forRange_succ (show 3 < 8 by decide), forRange_succ (show 4 < 8 by decide), forRange_succ (show 5 < 8 by decide),
-    forRange_succ (show 6 < 8 by decide), forRange_succ (show 7 < 8 by decide), forRange_done (Nat.le_refl 8), Nat.reduceAdd,
-    RustSem.band, shr_val (show 8 < 64 by decide), Exec.bind_eq, Exec.pure_eq]
-  simp only [Exec.ite_bind, Exec.bind_val', Exec.bind_ret', Exec.ite_run, Exec.run_ret, Exec.run_val,
-    sub_val (show 0 ≤ 8 by decide), sub_val (show 1 ≤ 8 by decide),
-    sub_val (show 2 ≤ 8 by decide), sub_val (show 3 ≤ 8 by decide), sub_val (show 4 ≤ 8 by decide), sub_val (show 5 ≤ 8 by decide),
-    sub_val (show 6 ≤ 8 by decide), sub_val (show 7 ≤ 8 by decide), Nat.reduceSub, Nat.reduceShiftRight,
-    ne_eq, decide_not, Bool.not_eq_eq_eq_not, Bool.not_true, decide_eq_false_iff_not, m7, m6, m5, m4, m3, m2, m1, m0]
-  repeat' split
-  all_goals rfl
-
-theorem sbr_bounds (s : Nat) : 1 ≤ Packet.sequenceBytesRequired s ∧ Packet.sequenceBytesRequired s ≤ 8 := by
-  simp only [Packet.sequenceBytesRequired, Packet.sequenceBytesRequired.go]
-  repeat' split
-  all_goals omega
-
-theorem encode_prefix_eq {ε} (value s : Nat) (hv : value < 16) :
-    (encode_prefix value s : Res ε Nat) = .ok (Packet.encodePrefix value s).toNat := by
-  unfold encode_prefix
-  have hb := sbr_bounds s
-  generalize hn : Packet.sequenceBytesRequired s = n at hb
-  have h1 : RustSem.cast 8 n = n := cast_of_lt (by omega)
-  have h2 : (n <<< 4) % 2 ^ 8 = n <<< 4 := by
-    rw [Nat.shiftLeft_eq]; exact Nat.mod_eq_of_lt (by omega)
-  have h3 : value ||| n <<< 4 = value + n * 16 := by
-    rw [Nat.or_comm, ← Nat.shiftLeft_add_eq_or_of_lt (by simpa using hv), Nat.shiftLeft_eq]; omega
-  have h4 : (value + n * 16) % 256 = value + n * 16 := Nat.mod_eq_of_lt (by omega)
-  simp only [sequence_bytes_required_eq, hn, Exec.call_ok, Exec.bind_val, h1, shl_val (show 4 < 8 by decide), h2, Exec.pure_eq,
-    Exec.run_val, RustSem.bor, h3, Packet.encodePrefix, UInt8.toNat_ofNat', h4]
-
-theorem decode_prefix_eq {ε} (v : UInt8) :
-    (decode_prefix v.toNat : Res ε (Nat × Nat)) = .ok (Packet.decodePrefix v) := by
-  unfold decode_prefix
-  have hv : v.toNat < 256 := v.toNat_lt
-  have h1 : RustSem.cast 64 (v.toNat >>> 4) = v.toNat / 16 := by
-    rw [Nat.shiftRight_eq_div_pow]; exact cast_of_lt (by omega)
-  have h2 : v.toNat &&& 0xF = v.toNat % 16 := Nat.and_two_pow_sub_one_eq_mod _ 4
-  simp only [shr_val (show 4 < 8 by decide), Exec.bind_val, Exec.pure_eq, Exec.run_val, RustSem.band, h1, h2, Packet.decodePrefix]
-
-abbrev SPacketType := Src.renetcode.packet.PacketType
-abbrev SNetcodeError := Src.renetcode.error.NetcodeError
-
-def absPT : SPacketType → Netcode.PacketType
-  | .ConnectionRequest => .connectionRequest | .ConnectionDenied => .connectionDenied | .Challenge => .challenge
-  | .Response => .response | .KeepAlive => .keepAlive | .Payload => .payload | .Disconnect => .disconnect
-
-def absDR : Src.renetcode.client.DisconnectReason → Netcode.DisconnectReason
-  | .ConnectTokenExpired => .connectTokenExpired | .ConnectionTimedOut => .connectionTimedOut
-  | .ConnectionResponseTimedOut => .connectionResponseTimedOut | .ConnectionRequestTimedOut => .connectionRequestTimedOut
-  | .ConnectionDenied => .connectionDenied | .DisconnectedByClient => .disconnectedByClient
-  | .DisconnectedByServer => .disconnectedByServer
-
-def absTGE : Src.renetcode.token.TokenGenerationError → Netcode.TokenGenErr
-  | .MaxHostCount => .maxHostCount | .CryptoError => .cryptoError | .IoError _ => .ioError
-  | .NoServerAddressAvailable => .noServerAddressAvailable
-
-def absErr : SNetcodeError → Netcode.NetcodeError
-  | .UnavailablePrivateKey => .unavailablePrivateKey | .InvalidPacketType => .invalidPacketType
-  | .InvalidProtocolID => .invalidProtocolID | .InvalidVersion => .invalidVersion | .PacketTooSmall => .packetTooSmall
-  | .PayloadAboveLimit => .payloadAboveLimit | .DuplicatedSequence => .duplicatedSequence | .NoMoreServers => .noMoreServers
-  | .Expired => .expired | .Disconnected r => .disconnected (absDR r) | .CryptoError => .cryptoError
-  | .NotInHostList => .notInHostList | .ClientNotFound => .clientNotFound | .ClientNotConnected => .clientNotConnected
-  | .IoError _ => .ioError | .TokenGenerationError e => .tokenGenerationError (absTGE e)
-
-theorem apply_replay_protection_eq {ε} (t : SPacketType) :
-    (PacketType.apply_replay_protection t : Res ε Bool) = .ok (absPT t).applyReplayProtection := by
-  cases t <;> rfl
-
-theorem from_u8_eq (v : Nat) :
-    mapRes absPT absErr (PacketType.from_u8 v) = Netcode.PacketType.fromU8 v := by
-  rcases v with _|_|_|_|_|_|_|n <;> rfl
-end B
-
-/-! ## C. slice constructor -/
-section C
-open Src.renet.channel.slice_constructor
-abbrev SChannelError := Src.renet.error.ChannelError
-
-def toNats (b : Bytes) : List Nat := b.map UInt8.toNat
-def reprSC (mid : Nat) (c : SliceCtor) : SliceConstructor := ⟨mid, c.numSlices, c.numReceived, c.received, toNats c.data⟩
-def reprCE : ChanErr → SChannelError
-  | .maxMemory => .ReliableChannelMaxMemoryReached
-  | .invalidSlice => .InvalidSliceMessage
-
-theorem toNats_replicate (n : Nat) : toNats (List.replicate n 0) = List.replicate n 0 := by
-  simp [toNats]
-theorem toNats_length (b : Bytes) : (toNats b).length = b.length := by simp [toNats]
-
-theorem sc_new_eq {ε} (mid n : Nat) (h : n * C.SLICE_SIZE < 2 ^ 64) :
-    (SliceConstructor.new mid n : Res ε _) = .ok (reprSC mid (SliceCtor.new n)) := by
-  unfold SliceConstructor.new
-  simp only [Src.renet.packet.SLICE_SIZE, mul_val (show n * 1200 < 2 ^ 64 from h), Exec.bind_val, Exec.pure_eq, Exec.run_val,
-    reprSC, SliceCtor.new, RustSem.repeat_, toNats_replicate, C.SLICE_SIZE]
-
-theorem toNats_resize (d : Bytes) (n : Nat) : toNats (resize d n) = RustSem.resize (toNats d) n 0 := by
-  simp [toNats, resize, RustSem.resize]
-
-set_option maxRecDepth 10000 in
-theorem process_slice_eq (mid : Nat) (c : SliceCtor) (idx : Nat) (bytes : Bytes)
-    (hn : c.numSlices * C.SLICE_SIZE < 2 ^ 64) (hr : c.numReceived + 1 < 2 ^ 64) :
-    SameOutcome (SliceConstructor.process_slice (reprSC mid c) idx (toNats bytes))
-      (mapRes (fun r => (reprSC mid r.1, r.2.map toNats)) reprCE (c.processSlice idx bytes)) := by
-  obtain ⟨n, nr, rc, d⟩ := c
-  simp only [C.SLICE_SIZE] at hn hr
-  unfold SliceConstructor.process_slice SliceCtor.processSlice
-  simp only [reprSC, Src.renet.packet.SLICE_SIZE, C.SLICE_SIZE, RustSem.len, toNats_length, Exec.pure_eq]
-  by_cases h1 : idx ≥ n
-  · simp [h1, Exec.bind_eq, Exec.bind, Exec.run, mapRes, SameOutcome, reprCE]
-  have hn1 : 1 ≤ n := by omega
-  simp only [h1, decide_false, Bool.false_eq_true, if_false, Exec.bind_val, sub_val hn1]
-  have hset : ∀ (dd : Bytes) (a b : Nat) (st : String) (st' : String), b = a + bytes.length →
-      ∀ (k : List Nat → Exec SChannelError (SliceConstructor × Option (List Nat)) (SliceConstructor × Option (List Nat)))
-        (k' : Bytes → Res ChanErr (SliceCtor × Option Bytes)),
-      (∀ x, SameOutcome (k (toNats x)).run (mapRes (fun r => (reprSC mid r.1, r.2.map toNats)) reprCE (k' x))) →
-      SameOutcome ((RustSem.copy_from_slice (toNats dd) a b (toNats bytes) st).bind k).run
-        (mapRes (fun r => (reprSC mid r.1, r.2.map toNats)) reprCE (setRange dd a bytes st' >>= k')) := by
-    intro dd a b st st' hb k k' hk
-    subst hb
-    unfold RustSem.copy_from_slice setRange
-    simp only [toNats_length]
-    by_cases hle : a + bytes.length ≤ dd.length
-    · have : a ≤ a + bytes.length ∧ a + bytes.length ≤ dd.length ∧ bytes.length = a + bytes.length - a := by omega
-      rw [if_pos this, if_pos hle]
-      have e : List.take a (toNats dd) ++ toNats bytes ++ List.drop (a + bytes.length) (toNats dd)
-          = toNats (List.take a dd ++ bytes ++ List.drop (a + bytes.length) dd) := by
-        simp only [toNats, List.map_append, List.map_take, List.map_drop]
-      rw [e]; exact hk _
-    · have : ¬ (a ≤ a + bytes.length ∧ a + bytes.length ≤ dd.length ∧ bytes.length = a + bytes.length - a) := by omega
-      rw [if_neg this, if_neg hle]
-      trivial
-  have hfin : ∀ (nr' : Nat) (rc' : List Bool) (x : Bytes),
-      SameOutcome
-        (((if decide (nr' = n) = true then
-            (Exec.ret (({ message_id := mid, num_slices := n, num_received_slices := nr', received := rc', sliced_data := [] } : SliceConstructor),
-              some (toNats x)) : Exec SChannelError _ SliceConstructor)
-          else Exec.val ({ message_id := mid, num_slices := n, num_received_slices := nr', received := rc', sliced_data := toNats x } : SliceConstructor)).bind
-            fun self => Exec.val (self, none)).run)
-        (mapRes (fun r => (reprSC mid r.1, r.2.map toNats)) reprCE
-          (if nr' = n then (pure (({ numSlices := n, numReceived := nr', received := rc', data := [] } : SliceCtor), some x) : Res ChanErr _)
-           else pure (({ numSlices := n, numReceived := nr', received := rc', data := x } : SliceCtor), none))) := by
-    intro nr' rc' x
-    by_cases h : nr' = n <;> simp [h, Exec.bind, Exec.run, mapRes, SameOutcome, reprSC, toNats]
-  simp only [reprSC] at hset hfin
-  by_cases hl : idx = n - 1
-  · subst hl
-    simp only [decide_true, if_true, beq_self_eq_true, true_and, not_true_eq_false, false_and, if_false]
-    by_cases hb : bytes.length > 1200
-    · simp only [hb, decide_true, if_true, Exec.bind_eq, Exec.bind_err', Exec.run_err, mapRes, SameOutcome, reprCE]
-    simp only [hb, decide_false, Bool.false_eq_true, if_false, Exec.bind_eq, Exec.bind_val']
-    cases hg : rc[n - 1]? with
-    | none => simp only [index_panic hg, Exec.bind_panic', Exec.run_panic, mapRes, SameOutcome]
-    | some got =>
-      simp only [index_val hg, Exec.bind_val']
-      have hlt : n - 1 < rc.length := (List.getElem?_eq_some_iff.mp hg).1
-      cases got with
-      | true =>
-        simp only [Bool.not_true, Bool.false_eq_true, if_false, Exec.bind_val', if_true, Res.bind_ok, Res.pure_eq]
-        exact hfin nr rc d
-      | false =>
-        have hm : (n - 1) * 1200 < 2 ^ 64 := by omega
-        have ha : (n - 1) * 1200 + bytes.length < 2 ^ 64 := by omega
-        have hr' : nr + 1 < 2 ^ 64 := by omega
-        simp only [Bool.not_false, if_true, set_val hlt, Exec.bind_val', Exec.bind_assoc', add_val hr', mul_val hm, add_val ha,
-          sub_val hn1, decide_true, Bool.false_eq_true, if_false, ← toNats_resize]
-        refine hset _ _ _ _ _ rfl _ _ (fun x => ?_)
-        simp only [Res.bind_ok, Res.pure_eq]
-        exact hfin (nr + 1) (rc.set (n - 1) true) x
-  · have hbeq : (idx == n - 1) = false := by simpa using hl
-    simp only [hl, decide_false, Bool.false_eq_true, if_false, hbeq, false_and, not_false_eq_true, true_and]
-    by_cases hb : bytes.length ≠ 1200
-    · simp only [hb, ne_eq, not_false_eq_true, decide_true, if_true, Exec.bind_eq, Exec.bind_err', Exec.run_err, mapRes, SameOutcome, reprCE]
-    have hb' : bytes.length = 1200 := by simpa using hb
-    simp only [hb', ne_eq, not_true_eq_false, decide_false, Bool.false_eq_true, if_false, Exec.bind_eq, Exec.bind_val']
-    cases hg : rc[idx]? with
-    | none => simp only [index_panic hg, Exec.bind_panic', Exec.run_panic, mapRes, SameOutcome]
-    | some got =>
-      simp only [index_val hg, Exec.bind_val']
-      have hlt : idx < rc.length := (List.getElem?_eq_some_iff.mp hg).1
-      cases got with
-      | true =>
-        simp only [Bool.not_true, Bool.false_eq_true, if_false, Exec.bind_val', if_true, Res.bind_ok, Res.pure_eq]
-        exact hfin nr rc d
-      | false =>
-        have hm : idx * 1200 < 2 ^ 64 := by omega
-        have ha : idx + 1 < 2 ^ 64 := by omega
-        have hm2 : (idx + 1) * 1200 < 2 ^ 64 := by omega
-        have hr' : nr + 1 < 2 ^ 64 := by omega
-        simp only [Bool.not_false, if_true, set_val hlt, Exec.bind_val', Exec.bind_assoc', add_val hr', mul_val hm, add_val ha,
-          mul_val hm2, sub_val hn1, hl, decide_false, Bool.false_eq_true, if_false]
-        refine hset _ _ _ _ _ (by omega) _ _ (fun x => ?_)
-        simp only [Res.bind_ok, Res.pure_eq]
-        exact hfin (nr + 1) (rc.set idx true) x
-
-theorem sc_new_overflow {ε} (mid n : Nat) (h : ¬ n * C.SLICE_SIZE < 2 ^ 64) :
-    ∃ site, (SliceConstructor.new mid n : Res ε _) = .panic site := by
-  unfold SliceConstructor.new
-  simp only [Src.renet.packet.SLICE_SIZE, mul_panic (show ¬ n * 1200 < 2 ^ 64 from h), Exec.bind_panic, Exec.run_panic]
-  exact ⟨_, rfl⟩
-
-/-- bytes of the generated code are `Nat`s: well-formed when `< 256` -/
-def BytesOk (l : List Nat) : Prop := ∀ b ∈ l, b < 256
-instance (l : List Nat) : Decidable (BytesOk l) := by unfold BytesOk; infer_instance
-def ofNats (l : List Nat) : Bytes := l.map UInt8.ofNat
-
-theorem toNats_ofNats {l : List Nat} (h : BytesOk l) : toNats (ofNats l) = l := by
-  induction l with
-  | nil => rfl
-  | cons b r ih =>
-    have hb : b < 256 := h b (by simp)
-    have hr : BytesOk r := fun x hx => h x (by simp [hx])
-    simp only [toNats, ofNats, List.map_cons, List.map_map] at ih ⊢
-    rw [ih hr]
-    simp [UInt8.toNat_ofNat', Nat.mod_eq_of_lt hb]
-theorem bytesOk_toNats (b : Bytes) : BytesOk (toNats b) := by
-  intro x hx
-  simp only [toNats, List.mem_map] at hx
-  obtain ⟨y, _, rfl⟩ := hx
-  exact y.toNat_lt
-theorem ofNats_toNats (b : Bytes) : ofNats (toNats b) = b := by
-  induction b with
-  | nil => rfl
-  | cons x r ih =>
-    simp only [ofNats, toNats, List.map_cons, List.map_map] at ih ⊢
-    rw [ih]; simp
-
-/-- abstraction: generated `SliceConstructor` ↦ model `SliceCtor` (the model does not store `message_id`) -/
-def absSC (st : SliceConstructor) : SliceCtor :=
-  ⟨st.num_slices, st.num_received_slices, st.received, ofNats st.sliced_data⟩
-
-/-- well-formed source state: data bytes are bytes, `num_slices * SLICE_SIZE` and the receive counter fit `usize` -/
-def WfSC (st : SliceConstructor) : Prop :=
-  BytesOk st.sliced_data ∧ st.num_slices * C.SLICE_SIZE < 2 ^ 64 ∧ st.num_received_slices + 1 < 2 ^ 64
-instance (st : SliceConstructor) : Decidable (WfSC st) := by unfold WfSC; infer_instance
-
-theorem reprSC_absSC (st : SliceConstructor) (h : BytesOk st.sliced_data) : reprSC st.message_id (absSC st) = st := by
-  cases st; simp only [reprSC, absSC] at h ⊢; rw [toNats_ofNats h]
-theorem absSC_reprSC (mid : Nat) (c : SliceCtor) : absSC (reprSC mid c) = c := by
-  cases c; simp [absSC, reprSC, ofNats_toNats]
-end C
-
-/-! ## D. `Packet::to_bytes` over the octets model -/
-section D
-open Src.renet.packet
-abbrev SSerErr := Src.renet.packet.SerializationError
-
-/-- buffer invariant of `OctetsMut` -/
-def OInv (b : OctetsMut) : Prop := b.off ≤ b.buf.length
-
-/-- the cursor after writing `xs` at the offset -/
-def owrite (b : OctetsMut) (xs : List Nat) : OctetsMut :=
-  { buf := b.buf.take b.off ++ xs ++ b.buf.drop (b.off + xs.length), off := b.off + xs.length }
-
-/-- specification of a successful/failed write of `xs` -/
-def W {ρ : Type} (b : OctetsMut) (xs : List Nat) : Exec SSerErr ρ OctetsMut :=
-  if b.off + xs.length ≤ b.buf.length then .val (owrite b xs) else .err .BufferTooShort
-
-theorem owrite_inv {b : OctetsMut} {xs : List Nat} (h : b.off + xs.length ≤ b.buf.length) : OInv (owrite b xs) := by
-  simp only [OInv, owrite, List.length_append, List.length_take, List.length_drop]; omega
-
-theorem owrite_length {b : OctetsMut} {xs : List Nat} (h : b.off + xs.length ≤ b.buf.length) :
-    (owrite b xs).buf.length = b.buf.length := by
-  simp only [owrite, List.length_append, List.length_take, List.length_drop]; omega
-
-theorem owrite_nil (b : OctetsMut) : owrite b [] = b := by
-  cases b; simp [owrite]
-
-theorem owrite_owrite {b : OctetsMut} {xs ys : List Nat} (h : b.off + xs.length ≤ b.buf.length) :
-    owrite (owrite b xs) ys = owrite b (xs ++ ys) := by
-  obtain ⟨buf, off⟩ := b
-  simp only [owrite, List.length_append] at *
-  have e1 : (List.take off buf ++ xs ++ List.drop (off + xs.length) buf).take (off + xs.length) = List.take off buf ++ xs := by
-    rw [List.take_append_of_le_length (by simp; omega)]
-    rw [List.take_of_length_le (by simp; omega)]
-  have e2 : (List.take off buf ++ xs ++ List.drop (off + xs.length) buf).drop (off + xs.length + ys.length)
-      = List.drop (off + (xs.length + ys.length)) buf := by
-    rw [List.drop_append]
-    simp only [List.length_append, List.length_take, List.drop_drop]
-    have : off + xs.length + ys.length - (min off buf.length + xs.length) = ys.length := by omega
-    rw [this, List.drop_of_length_le (by simp; omega)]
-    simp; congr 1; omega
-  rw [e1, e2]; simp [Nat.add_assoc]
-
-theorem W_nil {ρ} {b : OctetsMut} (h : OInv b) : (W b [] : Exec SSerErr ρ _) = .val b := by
-  simp [W, owrite_nil, OInv] at *; exact h
-
-theorem W_bind {ρ β} (b : OctetsMut) (xs ys : List Nat) (k : OctetsMut → Exec SSerErr ρ β) :
-    (W b xs).bind (fun b' => (W b' ys).bind k) = (W b (xs ++ ys)).bind k := by
-  unfold W
-  by_cases h1 : b.off + xs.length ≤ b.buf.length
-  · rw [if_pos h1, Exec.bind_val']
-    have hl := owrite_length h1
-    by_cases h2 : b.off + (xs ++ ys).length ≤ b.buf.length
-    · have : (owrite b xs).off + ys.length ≤ (owrite b xs).buf.length := by
-        rw [hl]; simp [owrite] at *; omega
-      rw [if_pos this, if_pos h2, owrite_owrite h1]
-    · have : ¬ (owrite b xs).off + ys.length ≤ (owrite b xs).buf.length := by
-        rw [hl]; simp [owrite] at *; omega
-      rw [if_neg this, if_neg h2]
-  · have h2 : ¬ b.off + (xs ++ ys).length ≤ b.buf.length := by simp at *; omega
-    rw [if_neg h1, if_neg h2]; rfl
-
-theorem conv_bts {ε} (e : BufferTooShortError) :
-    (SerializationError.from_BufferTooShortError e : Res ε SSerErr) = .ok .BufferTooShort := rfl
-
-theorem beBytes_length (v n : Nat) : (RustSem.beBytes v n).length = n := by
-  induction n with
-  | zero => rfl
-  | succ k ih => simp [RustSem.beBytes, ih]
-
-theorem callFrom_putBE {ρ} (b : OctetsMut) (v len : Nat) :
-    (Exec.callFrom SerializationError.from_BufferTooShortError (OctetsMut.putBE b v len) : Exec SSerErr ρ _)
-      = (W b (RustSem.beBytes v len)).bind (fun b' => .val (b', ())) := by
-  unfold OctetsMut.putBE W
-  simp only [beBytes_length]
-  by_cases h : b.buf.length < b.off + len
-  · have h' : ¬ b.off + len ≤ b.buf.length := by omega
-    rw [if_pos h, if_neg h']; rfl
-  · have h' : b.off + len ≤ b.buf.length := by omega
-    rw [if_neg h, if_pos h']; simp only [Exec.callFrom, Exec.bind_val', owrite, beBytes_length]
-
-theorem callFrom_put_bytes {ρ} (b : OctetsMut) (v : List Nat) (hb : OInv b) :
-    (Exec.callFrom SerializationError.from_BufferTooShortError (OctetsMut.put_bytes b v) : Exec SSerErr ρ _)
-      = (W b v).bind (fun b' => .val (b', ())) := by
-  unfold OctetsMut.put_bytes W OctetsMut.cap
-  unfold OInv at hb
-  by_cases h : b.buf.length - b.off < v.length
-  · have h' : ¬ b.off + v.length ≤ b.buf.length := by omega
-    rw [if_pos h, if_neg h']; rfl
-  · have h' : b.off + v.length ≤ b.buf.length := by omega
-    rw [if_neg h, if_pos h']
-    by_cases h0 : v.length = 0
-    · have : v = [] := List.eq_nil_of_length_eq_zero h0
-      subst this
-      simp [Exec.callFrom, Exec.bind_val', owrite_nil]
-    · rw [if_neg h0]; simp only [Exec.callFrom, Exec.bind_val', owrite]
-
-theorem orAt_owrite (b : OctetsMut) (y m : Nat) (r : List Nat) (hb : OInv b) :
-    (owrite b (y :: r)).orAt b.off m = owrite b ((y ||| m) :: r) := by
-  obtain ⟨buf, off⟩ := b
-  unfold OInv at hb
-  simp only at hb
-  have hl : (List.take off buf).length = off := by simp; omega
-  have hg : (List.take off buf ++ (y :: r) ++ List.drop (off + (y :: r).length) buf)[off]? = some y := by
-    rw [List.append_assoc, List.getElem?_append_right (by omega), hl]; simp
-  simp only [OctetsMut.orAt, owrite, hg]
-  congr 1
-  rw [List.append_assoc, List.set_append_right _ _ (by omega), hl]
-  simp
-
-theorem or_top2 (x k : Nat) (hx : x < 64) : x ||| (k * 64) = x + k * 64 := by
-  have : k * 64 = k <<< 6 := by rw [Nat.shiftLeft_eq]
-  rw [this, Nat.or_comm, ← Nat.shiftLeft_add_eq_or_of_lt (by simpa using hx)]; omega
-
-theorem toNats_beBytes (v n : Nat) : toNats (Varint.beBytes v n) = RustSem.beBytes v n := by
-  induction n with
-  | zero => rfl
-  | succ k ih =>
-    simp only [toNats, Varint.beBytes, List.map_cons, RustSem.beBytes] at ih ⊢
-    rw [ih]; simp [UInt8.toNat_ofNat']
-
-set_option maxRecDepth 20000 in
-theorem callFrom_put_varint {ρ} (b : OctetsMut) (v : Nat) (hb : OInv b) (hv : v ≤ Varint.MAX) :
-    (Exec.callFrom SerializationError.from_BufferTooShortError (OctetsMut.put_varint b v) : Exec SSerErr ρ _)
-      = (W b (toNats (Varint.enc v))).bind (fun b' => .val (b', ())) := by
-  have hcap : ∀ n, (b.cap < n) = (¬ b.off + n ≤ b.buf.length) := by
-    intro n; unfold OInv at hb; unfold OctetsMut.cap; apply propext; omega
-  have hWerr : ∀ xs : List Nat, ¬ b.off + xs.length ≤ b.buf.length →
-      ((W b xs).bind (fun b' => .val (b', ())) : Exec SSerErr ρ (OctetsMut × Unit)) = .err .BufferTooShort := by
-    intro xs h; unfold W; rw [if_neg h]; rfl
-  have hput : ∀ (x n : Nat), b.off + n ≤ b.buf.length →
-      OctetsMut.putBE b x n = .ok (owrite b (RustSem.beBytes x n), ()) := by
-    intro x n h
-    unfold OctetsMut.putBE
-    rw [if_neg (by omega)]; simp only [owrite, beBytes_length]
-  have hWok : ∀ xs : List Nat, b.off + xs.length ≤ b.buf.length →
-      ((W b xs).bind (fun b' => .val (b', ())) : Exec SSerErr ρ (OctetsMut × Unit)) = .val (owrite b xs, ()) := by
-    intro xs h; unfold W; rw [if_pos h]; rfl
-  unfold Varint.MAX at hv
-  unfold OctetsMut.put_varint RustSem.varint_len Varint.enc
-  by_cases h1 : v ≤ 63
-  · simp only [h1, if_true, hcap, toNats_beBytes]
-    by_cases hf : b.off + 1 ≤ b.buf.length
-    · rw [if_neg (fun hn => hn hf), hWok _ (by simpa [beBytes_length] using hf)]
-      simp only [OctetsMut.put_u8, hput _ _ hf, Exec.callFrom]
-      congr 3
-      simp only [RustSem.beBytes, Nat.pow_zero, Nat.div_one]
-      congr 1; omega
-    · rw [if_pos hf, hWerr _ (by simpa [beBytes_length] using hf)]; rfl
-  by_cases h2 : v ≤ 16383
-  · simp only [h1, h2, if_true, if_false, hcap, toNats_beBytes]
-    by_cases hf : b.off + 2 ≤ b.buf.length
-    · rw [if_neg (fun hn => hn hf), hWok _ (by simpa [beBytes_length] using hf)]
-      simp only [OctetsMut.put_u16, hput _ _ hf, Exec.callFrom, RustSem.beBytes, orAt_owrite _ _ _ _ hb]
-      have e : v % 2 ^ 16 / 256 ^ 1 % 256 < 64 := by omega
-      rw [show (0x40 : Nat) = 1 * 64 by rfl, or_top2 _ 1 e]
-      congr 3
-      simp only [Nat.pow_zero, Nat.div_one, Nat.pow_one]
-      congr 1
-      · omega
-      · congr 1; omega
-    · rw [if_pos hf, hWerr _ (by simpa [beBytes_length] using hf)]; rfl
-  by_cases h3 : v ≤ 1073741823
-  · simp only [h1, h2, h3, if_true, if_false, hcap, toNats_beBytes]
-    by_cases hf : b.off + 4 ≤ b.buf.length
-    · rw [if_neg (fun hn => hn hf), hWok _ (by simpa [beBytes_length] using hf)]
-      simp only [OctetsMut.put_u32, hput _ _ hf, Exec.callFrom, RustSem.beBytes, orAt_owrite _ _ _ _ hb]
-      have e : v % 2 ^ 32 / 256 ^ 3 % 256 < 64 := by omega
-      rw [show (0x80 : Nat) = 2 * 64 by rfl, or_top2 _ 2 e]
-      congr 3
-      simp only [Nat.pow_zero, Nat.div_one, Nat.pow_one]
-      congr 1
-      · omega
-      · congr 1
-        · omega
-        · congr 1
-          · omega
-          · congr 1; omega
-    · rw [if_pos hf, hWerr _ (by simpa [beBytes_length] using hf)]; rfl
-  · simp only [h1, h2, h3, hv, if_true, if_false, hcap, toNats_beBytes]
-    by_cases hf : b.off + 8 ≤ b.buf.length
-    · rw [if_neg (fun hn => hn hf), hWok _ (by simpa [beBytes_length] using hf)]
-      simp only [OctetsMut.put_u64, hput _ _ hf, Exec.callFrom, RustSem.beBytes, orAt_owrite _ _ _ _ hb]
-      have e : v / 256 ^ 7 % 256 < 64 := by omega
-      rw [show (0xc0 : Nat) = 3 * 64 by rfl, or_top2 _ 3 e]
-      have hm : v % 2 ^ 62 = v := Nat.mod_eq_of_lt (by omega)
-      rw [hm]
-      congr 3
-      simp only [Nat.pow_zero, Nat.div_one, Nat.pow_one]
-      have hv' : v < 4611686018427387904 := by omega
-      clear hput hWok hWerr hcap hm hf hb h1 h2 h3 hv
-      congr 1
-      · omega
-      · congr 1
-        · omega
-        · congr 1
-          · omega
-          · congr 1
-            · omega
-            · congr 1
-              · omega
-              · congr 1
-                · omega
-                · congr 1
-                  · omega
-                  · congr 1; omega
-    · rw [if_pos hf, hWerr _ (by simpa [beBytes_length] using hf)]; rfl
-
-theorem W_chain {ρ β} {b : OctetsMut} (xs ys : List Nat) (f g : OctetsMut → Exec SSerErr ρ β)
-    (h : ∀ b', OInv b' → f b' = (W b' ys).bind g) :
-    (W b xs).bind f = (W b (xs ++ ys)).bind g := by
-  rw [← W_bind]
-  unfold W
-  by_cases h1 : b.off + xs.length ≤ b.buf.length
-  · rw [if_pos h1, Exec.bind_val', Exec.bind_val', h _ (owrite_inv h1)]; rfl
-  · rw [if_neg h1]; rfl
-
-abbrev conv := @SerializationError.from_BufferTooShortError SSerErr
-
-theorem step_varint {ρ β} {b : OctetsMut} {v : Nat} (hv : v ≤ Varint.MAX) (xs : List Nat)
-    (k : OctetsMut × Unit → Exec SSerErr ρ β) :
-    (W b xs).bind (fun b' => (Exec.callFrom conv (OctetsMut.put_varint b' v)).bind k)
-      = (W b (xs ++ toNats (Varint.enc v))).bind (fun b' => k (b', ())) :=
-  W_chain _ _ _ _ (fun b' hb' => by rw [callFrom_put_varint b' v hb' hv, Exec.bind_assoc']; rfl)
-
-theorem step_u8 {ρ β} {b : OctetsMut} (v : Nat) (xs : List Nat)
-    (k : OctetsMut × Unit → Exec SSerErr ρ β) :
-    (W b xs).bind (fun b' => (Exec.callFrom conv (OctetsMut.put_u8 b' v)).bind k)
-      = (W b (xs ++ [v % 256])).bind (fun b' => k (b', ())) :=
-  W_chain _ _ _ _ (fun b' _ => by
-    rw [OctetsMut.put_u8, callFrom_putBE, Exec.bind_assoc']; simp [RustSem.beBytes]; rfl)
-
-theorem step_u16 {ρ β} {b : OctetsMut} (v : Nat) (xs : List Nat)
-    (k : OctetsMut × Unit → Exec SSerErr ρ β) :
-    (W b xs).bind (fun b' => (Exec.callFrom conv (OctetsMut.put_u16 b' v)).bind k)
-      = (W b (xs ++ [v / 256 % 256, v % 256])).bind (fun b' => k (b', ())) :=
-  W_chain _ _ _ _ (fun b' _ => by
-    rw [OctetsMut.put_u16, callFrom_putBE, Exec.bind_assoc']; simp [RustSem.beBytes]; rfl)
-
-theorem step_bytes {ρ β} {b : OctetsMut} (v : List Nat) (xs : List Nat)
-    (k : OctetsMut × Unit → Exec SSerErr ρ β) :
-    (W b xs).bind (fun b' => (Exec.callFrom conv (OctetsMut.put_bytes b' v)).bind k)
-      = (W b (xs ++ v)).bind (fun b' => k (b', ())) :=
-  W_chain _ _ _ _ (fun b' hb' => by rw [callFrom_put_bytes b' v hb', Exec.bind_assoc']; rfl)
-
-theorem W_start {ρ β} {b : OctetsMut} (hb : OInv b) (f : OctetsMut → Exec SSerErr ρ β) : f b = (W b []).bind f := by
-  rw [W_nil hb]; rfl
-
-def reprSlice (s : Slice) : Src.renet.packet.Slice := ⟨s.messageId, s.sliceIndex, s.numSlices, toNats s.payload⟩
-def reprRange (r : AckRange) : RustSem.Range := ⟨r.1, r.2⟩
-def reprPacket : RenetVerif.Packet → Src.renet.packet.Packet
-  | .smallReliable s c m => .SmallReliable s c (m.map fun x => (x.1, toNats x.2))
-  | .smallUnreliable s c m => .SmallUnreliable s c (m.map toNats)
-  | .reliableSlice s c sl => .ReliableSlice s c (reprSlice sl)
-  | .unreliableSlice s c sl => .UnreliableSlice s c (reprSlice sl)
-  | .ack s r => .Ack s (r.map reprRange)
-
-theorem cast64_of_le_max {v : Nat} (h : v ≤ Varint.MAX) : RustSem.cast 64 v = v :=
-  cast_of_lt (Nat.lt_of_le_of_lt h (by decide))
-theorem len_toNats (x : Bytes) : RustSem.len (toNats x) = x.length := by simp [RustSem.len, toNats]
-
-theorem putVarint_ok {v : Nat} {x : Bytes} (h : putVarint v = .ok x) : v ≤ Varint.MAX ∧ x = Varint.enc v := by
-  unfold putVarint at h
-  by_cases hv : v ≤ Varint.MAX
-  · rw [if_pos hv] at h; exact ⟨hv, (Res.ok.inj h).symm⟩
-  · rw [if_neg hv] at h; cases h
-
-/-- the result of `to_bytes` when the body wrote `bytes` -/
-def finish (b : OctetsMut) (bytes : List Nat) : Res SSerErr (OctetsMut × Nat) :=
-  if b.off + bytes.length ≤ b.buf.length then .ok (owrite b bytes, bytes.length) else .err .BufferTooShort
-
-theorem finish_eq {b : OctetsMut} (_hb : OInv b) (bytes : List Nat) (site : String) :
-    ((W b bytes).bind fun b' =>
-      (RustSem.sub 64 (OctetsMut.cap b) (OctetsMut.cap b') site).bind fun t => Exec.val (b', t)).run
-      = finish b bytes := by
-  unfold W finish
-  by_cases h : b.off + bytes.length ≤ b.buf.length
-  · rw [if_pos h, if_pos h, Exec.bind_val']
-    have hl := owrite_length h
-    have : OctetsMut.cap (owrite b bytes) ≤ OctetsMut.cap b := by
-      unfold OctetsMut.cap; rw [hl]; simp [owrite]; omega
-    rw [sub_val this, Exec.bind_val', Exec.run_val]
-    congr 2
-    unfold OctetsMut.cap; rw [hl]; simp [owrite]; omega
-  · rw [if_neg h, if_neg h]; rfl
-
-theorem bind_ok_inv {ε α β} {x : Res ε α} {f : α → Res ε β} {r : β} (h : (x >>= f) = .ok r) :
-    ∃ a, x = .ok a ∧ f a = .ok r := by
-  cases x with
-  | ok a => exact ⟨a, rfl, h⟩
-  | err e => cases h
-  | panic s => cases h
-
-theorem Exec.bind_val_id {ε ρ α} (x : Exec ε ρ α) : x.bind Exec.val = x := by cases x <;> rfl
-
-theorem forEach_chain {α ρ β} (l : List α) (f : α → List Nat) (body : α → OctetsMut → Exec SSerErr ρ OctetsMut)
-    (hbody : ∀ x ∈ l, ∀ b', OInv b' → body x b' = W b' (f x)) (xs : List Nat) (b : OctetsMut)
-    (k : OctetsMut → Exec SSerErr ρ β) :
-    (W b xs).bind (fun b' => (RustSem.forEach l b' body).bind k) = (W b (xs ++ (l.map f).flatten)).bind k := by
-  induction l generalizing xs with
-  | nil => simp [RustSem.forEach, Exec.bind_val']
-  | cons x r ih =>
-    have h1 : (W b xs).bind (fun b' => (RustSem.forEach (x :: r) b' body).bind k)
-        = (W b (xs ++ f x)).bind (fun st => (RustSem.forEach r st body).bind k) := by
-      apply W_chain
-      intro b' hb'
-      rw [RustSem.forEach, Exec.bind_assoc', hbody x (by simp) b' hb']
-    rw [h1, ih (fun y hy => hbody y (by simp [hy]))]
-    simp [List.append_assoc]
-
-theorem encSmallRel_ok {msgs : List (Nat × Bytes)} {body : Bytes} (h : encSmallRel msgs = .ok body) :
-    (∀ x ∈ msgs, x.1 ≤ Varint.MAX ∧ x.2.length ≤ Varint.MAX) ∧
-      toNats body = (msgs.map fun x => toNats (Varint.enc x.1) ++ toNats (Varint.enc x.2.length) ++ toNats x.2).flatten := by
-  induction msgs generalizing body with
-  | nil => cases h; simp [toNats]
-  | cons x r ih =>
-    obtain ⟨id, m⟩ := x
-    unfold encSmallRel at h
-    obtain ⟨a, ha, h⟩ := bind_ok_inv h
-    obtain ⟨c, hc, h⟩ := bind_ok_inv h
-    obtain ⟨rest, hrest, h⟩ := bind_ok_inv h
-    obtain ⟨hva, rfl⟩ := putVarint_ok ha
-    obtain ⟨hvc, rfl⟩ := putVarint_ok hc
-    cases h
-    obtain ⟨ih1, ih2⟩ := ih hrest
-    refine ⟨?_, ?_⟩
-    · intro y hy
-      rcases List.mem_cons.mp hy with rfl | hy
-      · exact ⟨hva, hvc⟩
-      · exact ih1 y hy
-    · simp only [List.map_cons, List.flatten_cons, ← ih2]
-      simp [toNats]
-
-theorem encSmallUnrel_ok {msgs : List Bytes} {body : Bytes} (h : encSmallUnrel msgs = .ok body) :
-    (∀ x ∈ msgs, x.length ≤ Varint.MAX) ∧
-      toNats body = (msgs.map fun x => toNats (Varint.enc x.length) ++ toNats x).flatten := by
-  induction msgs generalizing body with
-  | nil => cases h; simp [toNats]
-  | cons m r ih =>
-    unfold encSmallUnrel at h
-    obtain ⟨c, hc, h⟩ := bind_ok_inv h
-    obtain ⟨rest, hrest, h⟩ := bind_ok_inv h
-    obtain ⟨hvc, rfl⟩ := putVarint_ok hc
-    cases h
-    obtain ⟨ih1, ih2⟩ := ih hrest
-    refine ⟨?_, ?_⟩
-    · intro y hy
-      rcases List.mem_cons.mp hy with rfl | hy
-      · exact hvc
-      · exact ih1 y hy
-    · simp only [List.map_cons, List.flatten_cons, ← ih2]
-      simp [toNats]
-
-theorem csub_ok {ε} {a c d : Nat} {site : String} (h : (Res.csub a c site : Res ε Nat) = .ok d) : c ≤ a ∧ d = a - c := by
-  unfold Res.csub at h
-  by_cases hc : c ≤ a
-  · rw [if_pos hc] at h; exact ⟨hc, (Res.ok.inj h).symm⟩
-  · rw [if_neg hc] at h; cases h
-
-/-- value of `previous_range_start` after the ack loop -/
-def lastStart (prev : Nat) : List AckRange → Nat
-  | [] => prev
-  | (s, _) :: r => lastStart s r
-
-theorem ack_loop {ρ β} (rest : List AckRange)
-    (body : RustSem.Range → OctetsMut × Nat → Exec SSerErr ρ (OctetsMut × Nat))
-    (hbody : ∀ (s e prev : Nat) (b' : OctetsMut), OInv b' → e ≤ prev → 1 ≤ prev - e → 1 ≤ e → s ≤ e - 1 →
-      prev - e - 1 ≤ Varint.MAX → e - 1 - s ≤ Varint.MAX →
-      body ⟨s, e⟩ (b', prev) =
-        (W b' (toNats (Varint.enc (prev - e - 1)) ++ toNats (Varint.enc (e - 1 - s)))).bind (fun b'' => .val (b'', s)))
-    (prev : Nat) (bytes : Bytes) (h : encAckRest prev rest = .ok bytes) (xs : List Nat) (b : OctetsMut)
-    (k : OctetsMut × Nat → Exec SSerErr ρ β) :
-    (W b xs).bind (fun b' => (RustSem.forEach (rest.map reprRange) (b', prev) body).bind k)
-      = (W b (xs ++ toNats bytes)).bind (fun b' => k (b', lastStart prev rest)) := by
-  induction rest generalizing prev xs bytes with
-  | nil =>
-    cases h
-    simp [RustSem.forEach, Exec.bind_val', lastStart, toNats]
-  | cons x r ih =>
-    obtain ⟨s, e⟩ := x
-    unfold encAckRest at h
-    obtain ⟨g0, hg0, h⟩ := bind_ok_inv h
-    obtain ⟨gap, hgap, h⟩ := bind_ok_inv h
-    obtain ⟨e1, he1, h⟩ := bind_ok_inv h
-    obtain ⟨size, hsize, h⟩ := bind_ok_inv h
-    obtain ⟨a, ha, h⟩ := bind_ok_inv h
-    obtain ⟨c, hc, h⟩ := bind_ok_inv h
-    obtain ⟨rs, hrs, h⟩ := bind_ok_inv h
-    obtain ⟨c1, rfl⟩ := csub_ok hg0
-    obtain ⟨c2, rfl⟩ := csub_ok hgap
-    obtain ⟨c3, rfl⟩ := csub_ok he1
-    obtain ⟨c4, rfl⟩ := csub_ok hsize
-    obtain ⟨hva, rfl⟩ := putVarint_ok ha
-    obtain ⟨hvc, rfl⟩ := putVarint_ok hc
-    cases h
-    have h1 : (W b xs).bind (fun b' => (RustSem.forEach (((s, e) :: r).map reprRange) (b', prev) body).bind k)
-        = (W b (xs ++ (toNats (Varint.enc (prev - e - 1)) ++ toNats (Varint.enc (e - 1 - s))))).bind
-            (fun st => (RustSem.forEach (r.map reprRange) (st, s) body).bind k) := by
-      apply W_chain
-      intro b' hb'
-      rw [List.map_cons, RustSem.forEach, Exec.bind_assoc']
-      show (body ⟨s, e⟩ (b', prev)).bind _ = _
-      rw [hbody s e prev b' hb' c1 c2 c3 c4 hva hvc, Exec.bind_assoc']
-      rfl
-    rw [h1, ih s rs hrs]
-    simp [toNats, lastStart, List.append_assoc]
-
-theorem to_bytes_eq (p : RenetVerif.Packet) (b : OctetsMut) (hb : OInv b) (bytes : Bytes) (henc : p.enc = .ok bytes) :
-    Src.renet.packet.Packet.to_bytes (reprPacket p) b = finish b (toNats bytes) := by
-  cases p with
-  | reliableSlice seq ch sl =>
-    unfold Packet.enc at henc
-    obtain ⟨s, hs, h⟩ := bind_ok_inv henc
-    obtain ⟨body, hbody, h⟩ := bind_ok_inv h
-    unfold encSlice at hbody
-    obtain ⟨a1, h1, hbody⟩ := bind_ok_inv hbody
-    obtain ⟨a2, h2, hbody⟩ := bind_ok_inv hbody
-    obtain ⟨a3, h3, hbody⟩ := bind_ok_inv hbody
-    obtain ⟨a4, h4, hbody⟩ := bind_ok_inv hbody
-    obtain ⟨hv0, rfl⟩ := putVarint_ok hs
-    obtain ⟨hv1, rfl⟩ := putVarint_ok h1
-    obtain ⟨hv2, rfl⟩ := putVarint_ok h2
-    obtain ⟨hv3, rfl⟩ := putVarint_ok h3
-    obtain ⟨hv4, rfl⟩ := putVarint_ok h4
-    cases hbody; cases h
-    unfold Src.renet.packet.Packet.to_bytes
-    simp only [reprPacket, reprSlice, Exec.bind_eq, Exec.pure_eq]
-    rw [W_start hb (fun b' => (Exec.callFrom SerializationError.from_BufferTooShortError (OctetsMut.put_u8 b' 2)).bind _)]
-    simp only [cast64_of_le_max hv2, cast64_of_le_max hv3, cast64_of_le_max hv4, len_toNats,
-      step_u8, step_varint hv0, step_varint hv1, step_varint hv2, step_varint hv3, step_varint hv4, step_bytes,
-      Exec.bind_assoc', Exec.bind_val']
-    rw [finish_eq hb]
-    congr 1
-    simp [toNats]
-  | smallReliable seq ch msgs =>
-    unfold Packet.enc at henc
-    obtain ⟨s, hs, h⟩ := bind_ok_inv henc
-    obtain ⟨body, hbody, h⟩ := bind_ok_inv h
-    obtain ⟨hv0, rfl⟩ := putVarint_ok hs
-    obtain ⟨hm, hflat⟩ := encSmallRel_ok hbody
-    cases h
-    unfold Src.renet.packet.Packet.to_bytes
-    simp only [reprPacket, Exec.bind_eq, Exec.pure_eq]
-    rw [W_start hb (fun b' => (Exec.callFrom SerializationError.from_BufferTooShortError (OctetsMut.put_u8 b' 0)).bind _)]
-    simp only [step_u8, step_u16, step_varint hv0, Exec.bind_assoc']
-    rw [forEach_chain _ (fun x => toNats (Varint.enc x.1) ++ toNats (Varint.enc x.2.length) ++ x.2)]
-    · rw [finish_eq hb]
-      congr 1
-      simp only [toNats, List.append_assoc] at hflat
-      simp [toNats, u16be, RustSem.cast, RustSem.len, Function.comp_def]
-      exact ⟨by omega, hflat.symm⟩
-    · intro x hx b' hb'
-      obtain ⟨y, hy, rfl⟩ := List.mem_map.mp hx
-      obtain ⟨hy1, hy2⟩ := hm y hy
-      rw [W_start hb' (fun b => (Exec.callFrom SerializationError.from_BufferTooShortError (OctetsMut.put_varint b _)).bind _)]
-      have hl : RustSem.len (toNats y.2) = y.2.length := len_toNats _
-      simp only [hl, cast64_of_le_max hy2, step_varint hy1, step_varint hy2, step_bytes, Exec.bind_val_id, toNats_length]
-      simp
-  | smallUnreliable seq ch msgs =>
-    unfold Packet.enc at henc
-    obtain ⟨s, hs, h⟩ := bind_ok_inv henc
-    obtain ⟨body, hbody, h⟩ := bind_ok_inv h
-    obtain ⟨hv0, rfl⟩ := putVarint_ok hs
-    obtain ⟨hm, hflat⟩ := encSmallUnrel_ok hbody
-    cases h
-    unfold Src.renet.packet.Packet.to_bytes
-    simp only [reprPacket, Exec.bind_eq, Exec.pure_eq]
-    rw [W_start hb (fun b' => (Exec.callFrom SerializationError.from_BufferTooShortError (OctetsMut.put_u8 b' 1)).bind _)]
-    simp only [step_u8, step_u16, step_varint hv0, Exec.bind_assoc']
-    rw [forEach_chain _ (fun x => toNats (Varint.enc x.length) ++ x)]
-    · rw [finish_eq hb]
-      congr 1
-      simp only [toNats] at hflat
-      simp [toNats, u16be, RustSem.cast, RustSem.len, Function.comp_def]
-      exact ⟨by omega, hflat.symm⟩
-    · intro x hx b' hb'
-      obtain ⟨y, hy, rfl⟩ := List.mem_map.mp hx
-      have hy2 := hm y hy
-      rw [W_start hb' (fun b => (Exec.callFrom SerializationError.from_BufferTooShortError (OctetsMut.put_varint b _)).bind _)]
-      have hl : RustSem.len (toNats y) = y.length := len_toNats _
-      simp only [hl, cast64_of_le_max hy2, step_varint hy2, step_bytes, Exec.bind_val_id, toNats_length]
-      simp
-  | unreliableSlice seq ch sl =>
-    unfold Packet.enc at henc
-    obtain ⟨s, hs, h⟩ := bind_ok_inv henc
-    obtain ⟨body, hbody, h⟩ := bind_ok_inv h
-    unfold encSlice at hbody
-    obtain ⟨a1, h1, hbody⟩ := bind_ok_inv hbody
-    obtain ⟨a2, h2, hbody⟩ := bind_ok_inv hbody
-    obtain ⟨a3, h3, hbody⟩ := bind_ok_inv hbody
-    obtain ⟨a4, h4, hbody⟩ := bind_ok_inv hbody
-    obtain ⟨hv0, rfl⟩ := putVarint_ok hs
-    obtain ⟨hv1, rfl⟩ := putVarint_ok h1
-    obtain ⟨hv2, rfl⟩ := putVarint_ok h2
-    obtain ⟨hv3, rfl⟩ := putVarint_ok h3
-    obtain ⟨hv4, rfl⟩ := putVarint_ok h4
-    cases hbody; cases h
-    unfold Src.renet.packet.Packet.to_bytes
-    simp only [reprPacket, reprSlice, Exec.bind_eq, Exec.pure_eq]
-    rw [W_start hb (fun b' => (Exec.callFrom SerializationError.from_BufferTooShortError (OctetsMut.put_u8 b' 3)).bind _)]
-    simp only [cast64_of_le_max hv2, cast64_of_le_max hv3, cast64_of_le_max hv4, len_toNats,
-      step_u8, step_varint hv0, step_varint hv1, step_varint hv2, step_varint hv3, step_varint hv4, step_bytes,
-      Exec.bind_assoc', Exec.bind_val']
-    rw [finish_eq hb]
-    congr 1
-    simp [toNats]
-  | ack seq ranges =>
-    unfold Packet.enc at henc
-    obtain ⟨s, hs, h⟩ := bind_ok_inv henc
-    obtain ⟨hv0, rfl⟩ := putVarint_ok hs
-    cases hrev : ranges.reverse with
-    | nil => rw [hrev] at h; cases h
-    | cons last rest =>
-      obtain ⟨ls, le⟩ := last
-      rw [hrev] at h
-      simp only at h
-      obtain ⟨le1, hle1, h⟩ := bind_ok_inv h
-      obtain ⟨size, hsize, h⟩ := bind_ok_inv h
-      obtain ⟨a, ha, h⟩ := bind_ok_inv h
-      obtain ⟨c, hc, h⟩ := bind_ok_inv h
-      obtain ⟨d, hd, h⟩ := bind_ok_inv h
-      obtain ⟨r, hr, h⟩ := bind_ok_inv h
-      obtain ⟨c1, rfl⟩ := csub_ok hle1
-      obtain ⟨c2, rfl⟩ := csub_ok hsize
-      obtain ⟨hva, rfl⟩ := putVarint_ok ha
-      obtain ⟨hvc, rfl⟩ := putVarint_ok hc
-      obtain ⟨hvd, rfl⟩ := putVarint_ok hd
-      cases h
-      unfold Src.renet.packet.Packet.to_bytes
-      have hrev' : (ranges.map reprRange).reverse = reprRange (ls, le) :: rest.map reprRange := by
-        rw [← List.map_reverse, hrev]; rfl
-      simp only [reprPacket, Exec.bind_eq, Exec.pure_eq, hrev', List.head?_cons, List.tail_cons, RustSem.unwrap, reprRange]
-      rw [W_start hb (fun b' => (Exec.callFrom SerializationError.from_BufferTooShortError (OctetsMut.put_u8 b' 4)).bind _)]
-      have hl : RustSem.len (List.map reprRange rest) = rest.length := by
-        simp [RustSem.len]
-      simp only [step_u8, step_varint hv0, Exec.bind_assoc', Exec.bind_val', sub_val c1, sub_val c2, hl,
-        cast64_of_le_max hvd, step_varint hva, step_varint hvc, step_varint hvd]
-      rw [ack_loop rest _ ?hbody ls r hr]
-      case hbody =>
-        intro s e prev b' hb' k1 k2 k3 k4 k5 k6
-        simp only [sub_val k1, sub_val k2, sub_val k3, sub_val k4, Exec.bind_val']
-        rw [W_start hb' (fun b => (Exec.callFrom SerializationError.from_BufferTooShortError (OctetsMut.put_varint b _)).bind _)]
-        simp only [step_varint k5, step_varint k6, List.nil_append]
-      rw [finish_eq hb]
-      congr 1
-      simp [toNats]
-end D
-
-/-! ## E. `Packet::from_bytes` over the octets model -/
-section E
-open Src.renet.packet
-
-def reprSerErr : SerErr → SSerErr
-  | .bufferTooShort => .BufferTooShort | .invalidNumSlices => .InvalidNumSlices
-  | .sliceSizeAboveLimit => .SliceSizeAboveLimit | .emptySlice => .EmptySlice
-  | .invalidAckRange => .InvalidAckRange | .invalidPacketType => .InvalidPacketType
-
-/-- read cursor over `buf` whose unread rest is `rest` -/
-def cur (buf rest : Bytes) : Octets := ⟨toNats buf, buf.length - rest.length⟩
-
-theorem suffix_len {rest buf : Bytes} (h : rest <:+ buf) : rest.length ≤ buf.length := h.length_le
-
-theorem cur_drop {rest buf : Bytes} (h : rest <:+ buf) : (cur buf rest).buf.drop (cur buf rest).off = toNats rest := by
-  obtain ⟨pre, rfl⟩ := h
-  simp [cur, toNats]
-
-theorem cur_cap {rest buf : Bytes} (h : rest <:+ buf) : (cur buf rest).cap = rest.length := by
-  have := suffix_len h
-  simp [cur, Octets.cap, toNats]; omega
-
-theorem cur_advance {rest buf : Bytes} (h : rest <:+ buf) (n : Nat) (hn : n ≤ rest.length) :
-    ({ cur buf rest with off := (cur buf rest).off + n } : Octets) = cur buf (rest.drop n) := by
-  have := suffix_len h
-  simp only [cur, List.length_drop]
-  congr 1; omega
-
-/-- specification of a read step: run the model reader `d` on the rest -/
-def Rd {ρ α β : Type} (d : Bytes → Except SerErr (α × Bytes)) (f : α → β) (buf rest : Bytes) : Exec SSerErr ρ (Octets × β) :=
-  match d rest with
-  | .ok (a, r) => .val (cur buf r, f a)
-  | .error e => .err (reprSerErr e)
-
-/-- the same on the level of the octets model (`BufferTooShortError` only) -/
-def RdRaw {α β : Type} (d : Bytes → Except SerErr (α × Bytes)) (f : α → β) (buf rest : Bytes) :
-    Res BufferTooShortError (Octets × β) :=
-  match d rest with
-  | .ok (a, r) => .ok (cur buf r, f a)
-  | .error _ => .err .mk
-
-theorem callFrom_RdRaw {ρ α β : Type} (d : Bytes → Except SerErr (α × Bytes)) (f : α → β) (buf rest : Bytes)
-    (hd : ∀ e, d rest = .error e → e = .bufferTooShort) :
-    (Exec.callFrom conv (RdRaw d f buf rest) : Exec SSerErr ρ _) = Rd d f buf rest := by
-  unfold RdRaw Rd
-  cases h : d rest with
-  | ok x => rfl
-  | error e => rw [hd e h]; rfl
-
-theorem beVal_toNats (l : Bytes) (acc : Nat) :
-    (toNats l).foldl (fun acc x => acc * 256 + x) acc = Varint.beVal l acc := by
-  induction l generalizing acc with
-  | nil => rfl
-  | cons x r ih => simp only [toNats, List.map_cons, List.foldl_cons, Varint.beVal] at ih ⊢; exact ih _
-
-theorem peekBE_cur {rest buf : Bytes} (h : rest <:+ buf) (n : Nat) :
-    Octets.peekBE (cur buf rest) n = if rest.length < n then .err .mk else .ok (Varint.beVal (rest.take n) 0) := by
-  unfold Octets.peekBE
-  rw [cur_drop h, toNats_length]
-  by_cases hn : rest.length < n
-  · rw [if_pos hn, if_pos hn]
-  · rw [if_neg hn, if_neg hn]
-    congr 1
-    have : (toNats rest).take n = toNats (rest.take n) := by simp [toNats, List.map_take]
-    rw [this]; exact beVal_toNats _ 0
-
-theorem getBE_cur {rest buf : Bytes} (h : rest <:+ buf) (n : Nat) :
-    Octets.getBE (cur buf rest) n =
-      if rest.length < n then .err .mk else .ok (cur buf (rest.drop n), Varint.beVal (rest.take n) 0) := by
-  unfold Octets.getBE
-  rw [peekBE_cur h]
-  by_cases hn : rest.length < n
-  · rw [if_pos hn, if_pos hn]
-  · rw [if_neg hn, if_neg hn]
-    simp only
-    rw [cur_advance h n (by omega)]
-
-theorem get_u8_raw {rest buf : Bytes} (h : rest <:+ buf) :
-    Octets.get_u8 (cur buf rest) = RdRaw getU8 id buf rest := by
-  unfold Octets.get_u8 RdRaw
-  rw [getBE_cur h]
-  cases rest with
-  | nil => rfl
-  | cons x r => simp [getU8, Varint.beVal]
-
-theorem get_u16_raw {rest buf : Bytes} (h : rest <:+ buf) :
-    Octets.get_u16 (cur buf rest) = RdRaw getU16 id buf rest := by
-  unfold Octets.get_u16 RdRaw
-  rw [getBE_cur h]
-  match rest with
-  | [] => rfl
-  | [_] => rfl
-  | x :: y :: r =>
-    have : ¬ (x :: y :: r).length < 2 := by simp
-    rw [if_neg this]; simp [getU16, Varint.beVal]
-
-theorem parse_len (first : UInt8) :
-    (RustSem.varint_parse_len first.toNat : Res BufferTooShortError Nat) =
-      .ok (match first.toNat / 64 with | 0 => 1 | 1 => 2 | 2 => 4 | _ => 8) := by
-  have h := first.toNat_lt
-  unfold RustSem.varint_parse_len
-  rw [Nat.shiftRight_eq_div_pow]
-  have : first.toNat / 2 ^ 6 = 0 ∨ first.toNat / 2 ^ 6 = 1 ∨ first.toNat / 2 ^ 6 = 2 ∨ first.toNat / 2 ^ 6 = 3 := by omega
-  rcases this with h | h | h | h <;> simp [h, show (64 : Nat) = 2 ^ 6 from rfl]
-
-theorem get_varint_raw {rest buf : Bytes} (h : rest <:+ buf) :
-    Octets.get_varint (cur buf rest) = RdRaw getVarint id buf rest := by
-  unfold Octets.get_varint RdRaw getVarint Varint.get
-  rw [peekBE_cur h]
-  cases rest with
-  | nil => rfl
-  | cons first r =>
-    have h1 : ¬ (first :: r).length < 1 := by simp
-    rw [if_neg h1]
-    simp only [List.take_succ_cons, List.take_zero, Varint.beVal, Nat.zero_mul, Nat.zero_add, parse_len, cur_cap h]
-    have hf := first.toNat_lt
-    have hmask : ∀ (x k : Nat), x &&& (2 ^ k - 1) = x % 2 ^ k := fun x k => Nat.and_two_pow_sub_one_eq_mod x k
-    have hstep : ∀ n, ¬ n > (first :: r).length →
-        Octets.getBE (cur buf (first :: r)) n = .ok (cur buf ((first :: r).drop n), Varint.beVal ((first :: r).take n) 0) := by
-      intro n hn
-      rw [getBE_cur h, if_neg (by omega)]
-    have hcase : first.toNat / 64 = 0 ∨ first.toNat / 64 = 1 ∨ first.toNat / 64 = 2 ∨
-        (∃ k, first.toNat / 64 = k + 3) := by
-      by_cases h3 : first.toNat / 64 ≥ 3
-      · exact Or.inr (Or.inr (Or.inr ⟨first.toNat / 64 - 3, by omega⟩))
-      · omega
-    rcases hcase with hc | hc | hc | ⟨k, hc⟩
-    · simp only [hc]
-      by_cases hl : 1 > (first :: r).length
-      · rw [if_pos hl, if_pos hl]
-      · rw [if_neg hl, if_neg hl]
-        simp only [Octets.get_u8, hstep 1 hl, id]
-        simp only [List.take_succ_cons, List.take_zero, Varint.beVal, Nat.zero_mul, Nat.zero_add]
-        congr 2
-        omega
-    · simp only [hc]
-      by_cases hl : 2 > (first :: r).length
-      · rw [if_pos hl, if_pos hl]
-      · rw [if_neg hl, if_neg hl]
-        simp only [Octets.get_u16, hstep 2 hl, id]
-        rw [show (0x3fff : Nat) = 2 ^ 14 - 1 by decide, hmask]
-    · simp only [hc]
-      by_cases hl : 4 > (first :: r).length
-      · rw [if_pos hl, if_pos hl]
-      · rw [if_neg hl, if_neg hl]
-        simp only [Octets.get_u32, hstep 4 hl, id]
-        rw [show (0x3fffffff : Nat) = 2 ^ 30 - 1 by decide, hmask]
-    · simp only [hc]
-      by_cases hl : 8 > (first :: r).length
-      · rw [if_pos hl, if_pos hl]
-      · rw [if_neg hl, if_neg hl]
-        simp only [Octets.get_u64, hstep 8 hl, id]
-        rw [show (0x3fffffffffffffff : Nat) = 2 ^ 62 - 1 by decide, hmask]
-
-theorem getVarint_suffix {rest r : Bytes} {v : Nat} (h : getVarint rest = .ok (v, r)) :
-    r <:+ rest ∧ v < 2 ^ 62 := by
-  unfold getVarint at h
-  cases hg : Varint.get rest with
-  | none => rw [hg] at h; cases h
-  | some x =>
-    rw [hg] at h
-    injection h with h
-    subst h
-    unfold Varint.get at hg
-    cases rest with
-    | nil => cases hg
-    | cons first t =>
-      have hf := first.toNat_lt
-      have hcase : first.toNat / 64 = 0 ∨ first.toNat / 64 = 1 ∨ first.toNat / 64 = 2 ∨
-          (∃ k, first.toNat / 64 = k + 3) := by
-        by_cases h3 : first.toNat / 64 ≥ 3
-        · exact Or.inr (Or.inr (Or.inr ⟨first.toNat / 64 - 3, by omega⟩))
-        · omega
-      have fin : ∀ len : Nat, (len = 1 ∨ len = 2 ∨ len = 4 ∨ len = 8) →
-          (if len > (first :: t).length then none
-            else some (Varint.beVal (List.take len (first :: t)) 0 % 2 ^ (8 * len - 2), List.drop len (first :: t))) = some (v, r) →
-          r <:+ first :: t ∧ v < 2 ^ 62 := by
-        intro len hcases hg
-        by_cases hl : len > (first :: t).length
-        · rw [if_pos hl] at hg; cases hg
-        · rw [if_neg hl] at hg
-          injection hg with hg
-          injection hg with h1 h2
-          subst h1 h2
-          refine ⟨List.drop_suffix _ _, ?_⟩
-          apply Nat.lt_of_lt_of_le (Nat.mod_lt _ (Nat.pow_pos (by decide)))
-          apply Nat.pow_le_pow_right (by decide)
-          omega
-      rcases hcase with hc | hc | hc | ⟨k, hc⟩
-      · simp only [hc] at hg; exact fin 1 (by simp) hg
-      · simp only [hc] at hg; exact fin 2 (by simp) hg
-      · simp only [hc] at hg; exact fin 4 (by simp) hg
-      · simp only [hc] at hg; exact fin 8 (by simp) hg
-
-theorem getVarint_err {rest : Bytes} {e : SerErr} (h : getVarint rest = .error e) : e = .bufferTooShort := by
-  unfold getVarint at h
-  split at h
-  · injection h with h; exact h.symm
-  · cases h
-
-theorem getU8_suffix {rest r : Bytes} {v : Nat} (h : getU8 rest = .ok (v, r)) : r <:+ rest ∧ v < 256 := by
-  cases rest with
-  | nil => cases h
-  | cons x t =>
-    injection h with h; injection h with h1 h2; subst h1 h2
-    exact ⟨List.suffix_cons _ _, x.toNat_lt⟩
-theorem getU8_err {rest : Bytes} {e : SerErr} (h : getU8 rest = .error e) : e = .bufferTooShort := by
-  cases rest with
-  | nil => injection h with h; exact h.symm
-  | cons x t => cases h
-
-theorem getU16_suffix {rest r : Bytes} {v : Nat} (h : getU16 rest = .ok (v, r)) : r <:+ rest ∧ v < 65536 := by
-  match rest, h with
-  | x :: y :: t, h =>
-    injection h with h; injection h with h1 h2; subst h1 h2
-    have := x.toNat_lt; have := y.toNat_lt
-    exact ⟨(List.suffix_cons _ _).trans (List.suffix_cons _ _), by omega⟩
-theorem getU16_err {rest : Bytes} {e : SerErr} (h : getU16 rest = .error e) : e = .bufferTooShort := by
-  match rest, h with
-  | [], h => injection h with h; exact h.symm
-  | [_], h => injection h with h; exact h.symm
-
-theorem getBytesVar_suffix {rest r m : Bytes} (h : getBytesVar rest = .ok (m, r)) : r <:+ rest := by
-  unfold getBytesVar at h
-  cases hv : getVarint rest with
-  | error e => rw [hv] at h; cases h
-  | ok x =>
-    obtain ⟨len, r1⟩ := x
-    rw [hv] at h
-    simp only at h
-    split at h
-    · cases h
-    · injection h with h; injection h with h1 h2; subst h2
-      exact (List.drop_suffix _ _).trans (getVarint_suffix hv).1
-theorem getBytesVar_err {rest : Bytes} {e : SerErr} (h : getBytesVar rest = .error e) : e = .bufferTooShort := by
-  unfold getBytesVar at h
-  cases hv : getVarint rest with
-  | error e' => rw [hv] at h; injection h with h; rw [← h]; exact getVarint_err hv
-  | ok x =>
-    obtain ⟨len, r1⟩ := x
-    rw [hv] at h
-    simp only at h
-    split at h
-    · injection h with h; exact h.symm
-    · cases h
-
-theorem get_bytes_var_raw {rest buf : Bytes} (h : rest <:+ buf) :
-    Octets.get_bytes_with_varint_length (cur buf rest) =
-      RdRaw getBytesVar (fun m => (⟨toNats m, 0⟩ : Octets)) buf rest := by
-  unfold Octets.get_bytes_with_varint_length
-  rw [get_varint_raw h]
-  unfold RdRaw getBytesVar
-  cases hv : getVarint rest with
-  | error e => rfl
-  | ok x =>
-    obtain ⟨len, r1⟩ := x
-    obtain ⟨hs, hlt⟩ := getVarint_suffix hv
-    have hs1 : r1 <:+ buf := hs.trans h
-    simp only [id]
-    unfold Octets.get_bytes
-    rw [cur_cap hs1, Nat.mod_eq_of_lt (Nat.lt_trans hlt (by decide))]
-    by_cases hl : r1.length < len
-    · rw [if_pos hl, if_pos hl]
-    · rw [if_neg hl, if_neg hl]
-      simp only
-      rw [cur_advance hs1 len (by omega), cur_drop hs1]
-      congr 3
-      simp [toNats, List.map_take]
-
-theorem get_u8_cur {ρ} {rest buf : Bytes} (h : rest <:+ buf) :
-    (Exec.callFrom conv (Octets.get_u8 (cur buf rest)) : Exec SSerErr ρ _) = Rd getU8 id buf rest := by
-  rw [get_u8_raw h, callFrom_RdRaw _ _ _ _ (fun e he => getU8_err he)]
-theorem get_u16_cur {ρ} {rest buf : Bytes} (h : rest <:+ buf) :
-    (Exec.callFrom conv (Octets.get_u16 (cur buf rest)) : Exec SSerErr ρ _) = Rd getU16 id buf rest := by
-  rw [get_u16_raw h, callFrom_RdRaw _ _ _ _ (fun e he => getU16_err he)]
-theorem get_varint_cur {ρ} {rest buf : Bytes} (h : rest <:+ buf) :
-    (Exec.callFrom conv (Octets.get_varint (cur buf rest)) : Exec SSerErr ρ _) = Rd getVarint id buf rest := by
-  rw [get_varint_raw h, callFrom_RdRaw _ _ _ _ (fun e he => getVarint_err he)]
-theorem get_bytes_var_cur {ρ} {rest buf : Bytes} (h : rest <:+ buf) :
-    (Exec.callFrom conv (Octets.get_bytes_with_varint_length (cur buf rest)) : Exec SSerErr ρ _)
-      = Rd getBytesVar (fun m => (⟨toNats m, 0⟩ : Octets)) buf rest := by
-  rw [get_bytes_var_raw h, callFrom_RdRaw _ _ _ _ (fun e he => getBytesVar_err he)]
-
-/-- outcome of `from_bytes` predicted by the model decoder -/
-def fromModel (buf : Bytes) : Except SerErr (RenetVerif.Packet × Bytes) → Res SSerErr (Octets × Src.renet.packet.Packet)
-  | .ok (p, r) => .ok (cur buf r, reprPacket p)
-  | .error e => .err (reprSerErr e)
-
-theorem ebind_ok {ε α β} (a : α) (f : α → Except ε β) : (Except.ok a >>= f) = f a := rfl
-theorem ebind_err {ε α β} (e : ε) (f : α → Except ε β) : ((Except.error e : Except ε α) >>= f) = Except.error e := rfl
-theorem fromModel_err (buf : Bytes) (e : SerErr) : fromModel buf (.error e) = .err (reprSerErr e) := rfl
-
-theorem rd_step {α β : Type} (d : Bytes → Except SerErr (α × Bytes)) (f : α → β) (buf rest : Bytes)
-    (k : Octets × β → Exec SSerErr (Octets × Src.renet.packet.Packet) (Octets × Src.renet.packet.Packet))
-    (m : α × Bytes → Except SerErr (RenetVerif.Packet × Bytes))
-    (hk : ∀ a r, d rest = .ok (a, r) → (k (cur buf r, f a)).run = fromModel buf (m (a, r))) :
-    ((Rd d f buf rest).bind k).run = fromModel buf (d rest >>= m) := by
-  unfold Rd
-  cases h : d rest with
-  | error e => simp only [ebind_err, fromModel_err, Exec.bind_err', Exec.run_err]
-  | ok x => obtain ⟨a, r⟩ := x; simp only [ebind_ok, Exec.bind_val']; exact hk a r h
-
-theorem cast64_of_lt62 {v : Nat} (h : v < 2 ^ 62) : RustSem.cast 64 v = v :=
-  cast_of_lt (Nat.lt_trans h (by decide))
-
-/-- `n` rounds of a model reader, results in reading order -/
-def iter {α : Type} (step : Bytes → Except SerErr (α × Bytes)) : Nat → Bytes → Except SerErr (List α × Bytes)
-  | 0, r => .ok ([], r)
-  | n + 1, r =>
-    match step r with
-    | .error e => .error e
-    | .ok (a, r1) =>
-      match iter step n r1 with
-      | .error e => .error e
-      | .ok (l, r2) => .ok (a :: l, r2)
-
-theorem iter_suffix {α : Type} {step : Bytes → Except SerErr (α × Bytes)}
-    (hsuf : ∀ r a r', step r = .ok (a, r') → r' <:+ r) :
-    ∀ n r l r', iter step n r = .ok (l, r') → r' <:+ r := by
-  intro n
-  induction n with
-  | zero => intro r l r' h; injection h with h; injection h with _ h2; subst h2; exact List.suffix_refl _
-  | succ n ih =>
-    intro r l r' h
-    unfold iter at h
-    cases hs : step r with
-    | error e => rw [hs] at h; cases h
-    | ok x =>
-      obtain ⟨a, r1⟩ := x
-      rw [hs] at h
-      simp only at h
-      cases hi : iter step n r1 with
-      | error e => rw [hi] at h; cases h
-      | ok y =>
-        obtain ⟨l1, r2⟩ := y
-        rw [hi] at h
-        injection h with h; injection h with _ h2; subst h2
-        exact (ih _ _ _ hi).trans (hsuf _ _ _ hs)
-
-/-- a `for _ in 0..n` loop that reads one element per round and pushes it -/
-theorem loop_read {ρ α τ : Type} (buf : Bytes) (step : Bytes → Except SerErr (α × Bytes))
-    (hsuf : ∀ r a r', step r = .ok (a, r') → r' <:+ r) (g : α → τ)
-    (body : Nat → Octets × List τ → Exec SSerErr ρ (Octets × List τ))
-    (hbody : ∀ i r acc, r <:+ buf → body i (cur buf r, acc) =
-      match step r with
-      | .ok (a, r') => .val (cur buf r', acc ++ [g a])
-      | .error e => .err (reprSerErr e)) :
-    ∀ n i r acc, r <:+ buf → RustSem.forRange.loop body n i (cur buf r, acc) =
-      match iter step n r with
-      | .ok (l, r') => .val (cur buf r', acc ++ l.map g)
-      | .error e => .err (reprSerErr e) := by
-  intro n
-  induction n with
-  | zero => intro i r acc _; simp [RustSem.forRange.loop, iter]
-  | succ n ih =>
-    intro i r acc hr
-    rw [RustSem.forRange.loop, hbody i r acc hr]
-    unfold iter
-    cases hs : step r with
-    | error e => rfl
-    | ok x =>
-      obtain ⟨a, r1⟩ := x
-      simp only [Exec.bind_val']
-      rw [ih (i + 1) r1 (acc ++ [g a]) ((hsuf _ _ _ hs).trans hr)]
-      cases hi : iter step n r1 with
-      | error e => rfl
-      | ok y => obtain ⟨l, r2⟩ := y; simp
-
-def stepRel (r : Bytes) : Except SerErr ((Nat × Bytes) × Bytes) :=
-  match getVarint r with
-  | .error e => .error e
-  | .ok (id, r1) =>
-    match getBytesVar r1 with
-    | .error e => .error e
-    | .ok (m, r2) => .ok ((id, m), r2)
-
-theorem stepRel_suffix (r : Bytes) (a : Nat × Bytes) (r' : Bytes) (h : stepRel r = .ok (a, r')) : r' <:+ r := by
-  unfold stepRel at h
-  cases h1 : getVarint r with
-  | error e => rw [h1] at h; cases h
-  | ok x =>
-    obtain ⟨id, r1⟩ := x
-    rw [h1] at h
-    simp only at h
-    cases h2 : getBytesVar r1 with
-    | error e => rw [h2] at h; cases h
-    | ok y =>
-      obtain ⟨m, r2⟩ := y
-      rw [h2] at h
-      injection h with h; injection h with _ h'; subst h'
-      exact (getBytesVar_suffix h2).trans (getVarint_suffix h1).1
-
-theorem stepRel_err1 {r : Bytes} {e : SerErr} (h : getVarint r = .error e) : stepRel r = .error e := by
-  unfold stepRel; rw [h]
-theorem stepRel_err2 {r r1 : Bytes} {id : Nat} {e : SerErr} (h : getVarint r = .ok (id, r1))
-    (h2 : getBytesVar r1 = .error e) : stepRel r = .error e := by
-  unfold stepRel; rw [h]; simp only; rw [h2]
-theorem stepRel_ok {r r1 r2 m : Bytes} {id : Nat} (h : getVarint r = .ok (id, r1))
-    (h2 : getBytesVar r1 = .ok (m, r2)) : stepRel r = .ok ((id, m), r2) := by
-  unfold stepRel; rw [h]; simp only; rw [h2]
-
-theorem decSmallRel_iter (n : Nat) (r : Bytes) : decSmallRel n r = iter stepRel n r := by
-  induction n generalizing r with
-  | zero => rfl
-  | succ n ih =>
-    unfold decSmallRel iter
-    cases h1 : getVarint r with
-    | error e => rw [stepRel_err1 h1]; rfl
-    | ok x =>
-      obtain ⟨id, r1⟩ := x
-      simp only [ebind_ok]
-      cases h2 : getBytesVar r1 with
-      | error e => rw [stepRel_err2 h1 h2]; rfl
-      | ok y =>
-        obtain ⟨m, r2⟩ := y
-        rw [stepRel_ok h1 h2]
-        simp only [ebind_ok]
-        rw [ih r2]
-        cases iter stepRel n r2 with
-        | error e => rfl
-        | ok z => rfl
-
-theorem decSmallUnrel_iter (n : Nat) (r : Bytes) : decSmallUnrel n r = iter getBytesVar n r := by
-  induction n generalizing r with
-  | zero => rfl
-  | succ n ih =>
-    unfold decSmallUnrel iter
-    cases h2 : getBytesVar r with
-    | error e => rfl
-    | ok y =>
-      obtain ⟨m, r2⟩ := y
-      simp only [ebind_ok]
-      rw [ih r2]
-      cases iter getBytesVar n r2 with
-      | error e => simp only [ebind_err]
-      | ok z => simp only [ebind_ok]; rfl
-
-/-- one round of the ack loop of the model decoder -/
-def ackStep (prev : Nat) (r : Bytes) : Except SerErr (AckRange × Bytes) :=
-  match getVarint r with
-  | .error e => .error e
-  | .ok (gap, r1) =>
-    if prev < 2 + gap then .error .invalidAckRange
-    else
-      match getVarint r1 with
-      | .error e => .error e
-      | .ok (size, r2) =>
-        if prev - gap - 2 < size then .error .invalidAckRange
-        else .ok ((prev - gap - 2 - size, prev - gap - 2 + 1), r2)
-
-theorem decAckRest_succ (n prev : Nat) (r : Bytes) (acc : List AckRange) :
-    decAckRest (n + 1) prev r acc =
-      match ackStep prev r with
-      | .error e => .error e
-      | .ok (x, r') => decAckRest n x.1 r' (x :: acc) := by
-  rw [decAckRest]
-  unfold ackStep
-  cases h1 : getVarint r with
-  | error e => rfl
-  | ok x =>
-    obtain ⟨gap, r1⟩ := x
-    simp only [ebind_ok]
-    by_cases hg : prev < 2 + gap
-    · rw [if_pos hg, if_pos hg]
-    · rw [if_neg hg, if_neg hg]
-      cases h2 : getVarint r1 with
-      | error e => rfl
-      | ok y =>
-        obtain ⟨size, r2⟩ := y
-        simp only [ebind_ok]
-        by_cases hz : prev - gap - 2 < size
-        · rw [if_pos hz, if_pos hz]
-        · rw [if_neg hz, if_neg hz]
-
-theorem ackStep_ok {prev : Nat} {r r' : Bytes} {x : AckRange} (h : ackStep prev r = .ok (x, r')) :
-    r' <:+ r ∧ x.1 ≤ prev := by
-  unfold ackStep at h
-  cases h1 : getVarint r with
-  | error e => rw [h1] at h; cases h
-  | ok y =>
-    obtain ⟨gap, r1⟩ := y
-    rw [h1] at h
-    simp only at h
-    by_cases hg : prev < 2 + gap
-    · rw [if_pos hg] at h; cases h
-    · rw [if_neg hg] at h
-      cases h2 : getVarint r1 with
-      | error e => rw [h2] at h; cases h
-      | ok z =>
-        obtain ⟨size, r2⟩ := z
-        rw [h2] at h
-        simp only at h
-        by_cases hz : prev - gap - 2 < size
-        · rw [if_pos hz] at h; cases h
-        · rw [if_neg hz] at h
-          injection h with h; injection h with hx hr; subst hx hr
-          exact ⟨(getVarint_suffix h2).1.trans (getVarint_suffix h1).1, by simp only; omega⟩
-
-theorem loop_ack {ρ β : Type} (buf : Bytes)
-    (body : Nat → List RustSem.Range × Octets × Nat → Exec SSerErr ρ (List RustSem.Range × Octets × Nat))
-    (hbody : ∀ i vec r prev, r <:+ buf → prev < 2 ^ 62 → body i (vec, cur buf r, prev) =
-      match ackStep prev r with
-      | .ok (x, r') => .val (vec ++ [reprRange x], cur buf r', x.1)
-      | .error e => .err (reprSerErr e))
-    (k : List RustSem.Range × Octets × Nat → Exec SSerErr ρ β)
-    (hk : ∀ v b p p', k (v, b, p) = k (v, b, p')) :
-    ∀ n i vec r prev acc, r <:+ buf → prev < 2 ^ 62 → acc.map reprRange = vec.reverse →
-      (RustSem.forRange.loop body n i (vec, cur buf r, prev)).bind k =
-        match decAckRest n prev r acc with
-        | .ok (ranges, r') => k ((ranges.map reprRange).reverse, cur buf r', 0)
-        | .error e => .err (reprSerErr e) := by
-  intro n
-  induction n with
-  | zero =>
-    intro i vec r prev acc _ _ hacc
-    simp only [RustSem.forRange.loop, decAckRest, Exec.bind_val', hacc, List.reverse_reverse]
-    exact hk _ _ _ _
-  | succ n ih =>
-    intro i vec r prev acc hr hp hacc
-    rw [RustSem.forRange.loop, hbody i vec r prev hr hp, decAckRest_succ]
-    cases hs : ackStep prev r with
-    | error e => rfl
-    | ok y =>
-      obtain ⟨x, r'⟩ := y
-      obtain ⟨hsuf, hle⟩ := ackStep_ok hs
-      simp only [Exec.bind_val']
-      exact ih (i + 1) (vec ++ [reprRange x]) r' x.1 (x :: acc) (hsuf.trans hr) (Nat.lt_of_le_of_lt hle hp)
-        (by simp [hacc])
-
-theorem from_bytes_eq (buf rest : Bytes) (hs : rest <:+ buf) :
-    Src.renet.packet.Packet.from_bytes (cur buf rest) = fromModel buf (Packet.decode rest) := by
-  unfold Src.renet.packet.Packet.from_bytes Packet.decode
-  simp only [Exec.bind_eq, Exec.pure_eq]
-  rw [get_u8_cur hs]
-  refine rd_step _ _ _ _ _ _ (fun ty r0 h0 => ?_)
-  have hs0 := (getU8_suffix h0).1.trans hs
-  simp only [id]
-  match ty with
-  | 3 =>
-    simp only
-    rw [get_varint_cur hs0]; refine rd_step _ _ _ _ _ _ (fun seq r1 h1 => ?_)
-    have hs1 := (getVarint_suffix h1).1.trans hs0
-    rw [get_u8_cur hs1]; refine rd_step _ _ _ _ _ _ (fun ch r2 h2 => ?_)
-    have hs2 := (getU8_suffix h2).1.trans hs1
-    rw [get_varint_cur hs2]; refine rd_step _ _ _ _ _ _ (fun mid r3 h3 => ?_)
-    have hs3 := (getVarint_suffix h3).1.trans hs2
-    rw [get_varint_cur hs3]; refine rd_step _ _ _ _ _ _ (fun idx r4 h4 => ?_)
-    have hs4 := (getVarint_suffix h4).1.trans hs3
-    rw [get_varint_cur hs4]; refine rd_step _ _ _ _ _ _ (fun n r5 h5 => ?_)
-    have hs5 := (getVarint_suffix h5).1.trans hs4
-    simp only [id, cast64_of_lt62 (getVarint_suffix h4).2, cast64_of_lt62 (getVarint_suffix h5).2]
-    by_cases hn : n = 0 ∨ n > C.MAX_NUM_SLICES
-    · have : (decide (n = 0) || decide (n > 1000000)) = true := by simpa [C.MAX_NUM_SLICES] using hn
-      rw [if_pos this, if_pos hn]; rfl
-    · have : ¬ (decide (n = 0) || decide (n > 1000000)) = true := by simpa [C.MAX_NUM_SLICES] using hn
-      rw [if_neg this, if_neg hn, Exec.bind_val']
-      rw [get_bytes_var_cur hs5]; refine rd_step _ _ _ _ _ _ (fun m r6 h6 => ?_)
-      simp only [Exec.run_val, Octets.to_vec, List.drop_zero]; rfl
-  | 2 =>
-    simp only
-    rw [get_varint_cur hs0]; refine rd_step _ _ _ _ _ _ (fun seq r1 h1 => ?_)
-    have hs1 := (getVarint_suffix h1).1.trans hs0
-    rw [get_u8_cur hs1]; refine rd_step _ _ _ _ _ _ (fun ch r2 h2 => ?_)
-    have hs2 := (getU8_suffix h2).1.trans hs1
-    rw [get_varint_cur hs2]; refine rd_step _ _ _ _ _ _ (fun mid r3 h3 => ?_)
-    have hs3 := (getVarint_suffix h3).1.trans hs2
-    rw [get_varint_cur hs3]; refine rd_step _ _ _ _ _ _ (fun idx r4 h4 => ?_)
-    have hs4 := (getVarint_suffix h4).1.trans hs3
-    rw [get_varint_cur hs4]; refine rd_step _ _ _ _ _ _ (fun n r5 h5 => ?_)
-    have hs5 := (getVarint_suffix h5).1.trans hs4
-    simp only [id, cast64_of_lt62 (getVarint_suffix h4).2, cast64_of_lt62 (getVarint_suffix h5).2]
-    by_cases hn : n = 0 ∨ n > C.MAX_NUM_SLICES
-    · have : (decide (n = 0) || decide (n > 1000000)) = true := by simpa [C.MAX_NUM_SLICES] using hn
-      rw [if_pos this, if_pos hn]; rfl
-    · have : ¬ (decide (n = 0) || decide (n > 1000000)) = true := by simpa [C.MAX_NUM_SLICES] using hn
-      rw [if_neg this, if_neg hn, Exec.bind_val']
-      rw [get_bytes_var_cur hs5]; refine rd_step _ _ _ _ _ _ (fun m r6 h6 => ?_)
-      simp only [Octets.is_empty, Octets.len, Octets.to_vec, List.drop_zero, toNats_length,
-        show Src.renet.packet.SLICE_SIZE = C.SLICE_SIZE from rfl]
-      by_cases he : m.isEmpty
-      · have : (m.length == 0) = true := by simpa [List.isEmpty_iff_length_eq_zero] using he
-        rw [if_pos this, if_pos he]; rfl
-      · have : ¬ (m.length == 0) = true := by simpa [List.isEmpty_iff_length_eq_zero] using he
-        rw [if_neg this, if_neg he, Exec.bind_val']
-        by_cases hl : m.length > C.SLICE_SIZE
-        · rw [if_pos (by simpa using hl), if_pos hl]; rfl
-        · rw [if_neg (by simpa using hl), if_neg hl, Exec.bind_val', Exec.run_val]; rfl
-  | n + 5 => rfl
-  | 0 =>
-    simp only
-    rw [get_varint_cur hs0]; refine rd_step _ _ _ _ _ _ (fun seq r1 h1 => ?_)
-    have hs1 := (getVarint_suffix h1).1.trans hs0
-    rw [get_u8_cur hs1]; refine rd_step _ _ _ _ _ _ (fun ch r2 h2 => ?_)
-    have hs2 := (getU8_suffix h2).1.trans hs1
-    rw [get_u16_cur hs2]; refine rd_step _ _ _ _ _ _ (fun n r3 h3 => ?_)
-    have hs3 := (getU16_suffix h3).1.trans hs2
-    simp only [id, RustSem.forRange, Nat.sub_zero]
-    rw [loop_read buf stepRel stepRel_suffix (fun x => (x.1, toNats x.2)) _ ?hbody n 0 r3 [] hs3]
-    case hbody =>
-      intro i r acc hr
-      simp only
-      rw [get_varint_cur hr]; unfold Rd
-      cases g1 : getVarint r with
-      | error e => rw [stepRel_err1 g1]; rfl
-      | ok x =>
-        obtain ⟨mid, q1⟩ := x
-        have hq1 := (getVarint_suffix g1).1.trans hr
-        simp only [Exec.bind_val', id]
-        rw [get_bytes_var_cur hq1]; unfold Rd
-        cases g2 : getBytesVar q1 with
-        | error e => rw [stepRel_err2 g1 g2]; rfl
-        | ok y =>
-          obtain ⟨m, q2⟩ := y
-          rw [stepRel_ok g1 g2]
-          simp only [Exec.bind_val', Octets.to_vec, List.drop_zero, RustSem.push]
-    rw [decSmallRel_iter]
-    cases iter stepRel n r3 with
-    | error e => rfl
-    | ok z => obtain ⟨l, r4⟩ := z; simp only [Exec.bind_val', Exec.run_val, List.nil_append, ebind_ok]; rfl
-  | 1 =>
-    simp only
-    rw [get_varint_cur hs0]; refine rd_step _ _ _ _ _ _ (fun seq r1 h1 => ?_)
-    have hs1 := (getVarint_suffix h1).1.trans hs0
-    rw [get_u8_cur hs1]; refine rd_step _ _ _ _ _ _ (fun ch r2 h2 => ?_)
-    have hs2 := (getU8_suffix h2).1.trans hs1
-    rw [get_u16_cur hs2]; refine rd_step _ _ _ _ _ _ (fun n r3 h3 => ?_)
-    have hs3 := (getU16_suffix h3).1.trans hs2
-    simp only [id, RustSem.forRange, Nat.sub_zero]
-    rw [loop_read buf getBytesVar (fun r a r' h => getBytesVar_suffix h) toNats _ ?hbody n 0 r3 [] hs3]
-    case hbody =>
-      intro i r acc hr
-      simp only
-      rw [get_bytes_var_cur hr]; unfold Rd
-      cases g2 : getBytesVar r with
-      | error e => rfl
-      | ok y =>
-        obtain ⟨m, q2⟩ := y
-        simp only [Exec.bind_val', Octets.to_vec, List.drop_zero, RustSem.push]
-    rw [decSmallUnrel_iter]
-    cases iter getBytesVar n r3 with
-    | error e => rfl
-    | ok z => obtain ⟨l, r4⟩ := z; simp only [Exec.bind_val', Exec.run_val, List.nil_append, ebind_ok]; rfl
-  | 4 =>
-    simp only
-    rw [get_varint_cur hs0]; refine rd_step _ _ _ _ _ _ (fun seq r1 h1 => ?_)
-    have hs1 := (getVarint_suffix h1).1.trans hs0
-    rw [get_varint_cur hs1]; refine rd_step _ _ _ _ _ _ (fun fe r2 h2 => ?_)
-    have hs2 := (getVarint_suffix h2).1.trans hs1
-    rw [get_varint_cur hs2]; refine rd_step _ _ _ _ _ _ (fun fsz r3 h3 => ?_)
-    have hs3 := (getVarint_suffix h3).1.trans hs2
-    rw [get_varint_cur hs3]; refine rd_step _ _ _ _ _ _ (fun nr r4 h4 => ?_)
-    have hs4 := (getVarint_suffix h4).1.trans hs3
-    simp only [id]
-    have hfe := (getVarint_suffix h2).2
-    by_cases hlt : fe < fsz
-    · rw [if_pos (by simpa using hlt), if_pos hlt]; rfl
-    rw [if_neg (by simpa using hlt), if_neg hlt, Exec.bind_val', sub_val (by omega),
-      add_val (show fe + 1 < 2 ^ 64 by omega), Exec.bind_val', Exec.bind_val']
-    simp only [RustSem.forRange, Nat.sub_zero, RustSem.push, List.nil_append]
-    rw [loop_ack buf _ ?hbody _ (fun _ _ _ _ => rfl) nr 0 _ r4 (fe - fsz) [(fe - fsz, fe + 1)] hs4 (by omega) rfl]
-    case hbody =>
-      intro i vec r prev hr hp
-      simp only
-      rw [get_varint_cur hr]; unfold Rd ackStep
-      cases g1 : getVarint r with
-      | error e => rfl
-      | ok x =>
-        obtain ⟨gap, q1⟩ := x
-        obtain ⟨hq1', hgap⟩ := getVarint_suffix g1
-        have hq1 := hq1'.trans hr
-        simp only [Exec.bind_val', id, add_val (show 2 + gap < 2 ^ 64 by omega)]
-        by_cases hg : prev < 2 + gap
-        · rw [if_pos (by simpa using hg), if_pos hg]; rfl
-        rw [if_neg (by simpa using hg), if_neg hg, Exec.bind_val', sub_val (show gap ≤ prev by omega), Exec.bind_val',
-          sub_val (show 2 ≤ prev - gap by omega), Exec.bind_val']
-        rw [get_varint_cur hq1]; unfold Rd
-        cases g2 : getVarint q1 with
-        | error e => rfl
-        | ok y =>
-          obtain ⟨size, q2⟩ := y
-          simp only [Exec.bind_val', id]
-          by_cases hz : prev - gap - 2 < size
-          · rw [if_pos (by simpa using hz), if_pos hz]; rfl
-          rw [if_neg (by simpa using hz), if_neg hz, Exec.bind_val', sub_val (by omega),
-            add_val (show prev - gap - 2 + 1 < 2 ^ 64 by omega)]
-          rfl
-    cases decAckRest nr (fe - fsz) r4 [(fe - fsz, fe + 1)] with
-    | error e => rfl
-    | ok z =>
-      obtain ⟨ranges, r5⟩ := z
-      simp only [Exec.run_val, List.reverse_reverse, ebind_ok]; rfl
-end E
-end RenetVerif.SrcEquiv
+import RenetVerif.Lemmas.SrcEquiv.Replay
+import RenetVerif.Lemmas.SrcEquiv.Prefix
+import RenetVerif.Lemmas.SrcEquiv.Slice
+import RenetVerif.Lemmas.SrcEquiv.Packet
